@@ -1,3 +1,1232 @@
-import ElfioVerif.Model.Writer
+/-
+C03 — a file built through the API decodes, per the ELF specification, to what was put in.
+
+Proved (all for every class, byte order, object; hypotheses explicit):
+ 1. records — `encodeShdr_spec_bytes`, `encodePhdr_spec_bytes`: every field of the record the writer
+    emits is `encodeInt enc width value` at the gABI offset (Spec/Records.lean): "multi-byte fields are
+    stored in the declared byte order"; `encodeShdr_eq_spec`, `encodePhdr_eq_spec`: the specification's
+    decoder reads the fields back (`FieldsFit`/`SegFit`: values fit the class width — the setters
+    truncate); `decodeShdr_encodeShdr`, `decodePhdr_encodePhdr` (model decoder ∘ encoder = id).
+ 2. ELF header setters — `hdr_set_eq_wr`, `hdr_set_get_spec`, `hdr_set_frame_spec`, `hdr_set_get`,
+    `hdr_set_frame`, `hdr_set_ident_get`; algebra `set_slice_same/other`, `set_absorb`, `set_set`.
+ 2b. construction — `create_eq`/`create_header`/`create_inv` (two sections, `.shstrtab`, `e_shstrndx = 1`,
+    `EI_DATA` declares the byte order), `sectionsAdd_name` (the writer's `add_string` refines
+    `Spec.addStr`, C08; earlier names stay valid).
+ 3. stream — `saveSection_writes` (`adjust_stream_size` + `write`), `applyWrites_slices` (Lemmas/Save).
+ 4. composition — `save_decodes` (+ `_header`, `_section`, `_segment`): after a successful save every
+    record and every section's data is in the stream where the header says; `save_header_fields`;
+    `save_decode_fields`, `save_decode_header`, `save_image_header`: the saved bytes, read with the
+    *specification's* decoder, give back the object's header attributes, sections (same order; name
+    offset, type, flags, size, link, info, alignment, entry size, explicit address, data) and segments
+    (type, flags, addresses, alignment ≥ requested, ELF64 memory size ≥ given).
+Hypotheses of 4: save succeeded into a non-failed unbudgeted stream; no address translation;
+`LayoutOk` (= C04's `layout_disjoint`, taken as a hypothesis: the written ranges are pairwise disjoint,
+offsets < 2^63) — so all rungs (no segments / flat / nested) are covered at once; `FieldsFit`.
+`layoutOk_of_zones` derives `LayoutOk` from exactly the conclusions of C04's `layout_disjoint` plus
+table bookkeeping.  Not proved here: `LayoutOk` itself (C04); section *names* as strings of the reloaded file are the
+composition of `sectionsAdd_name` (offset points at the name in the table) with the data clause of
+`save_decode_fields` for the `.shstrtab` section and C08's `get_refines` — not spelled out as one
+theorem; compression interfaces are outside the model.
+-/
+import ElfioVerif.Lemmas.Save
+import ElfioVerif.Props.C02
+import ElfioVerif.Props.C08
 namespace ElfioVerif.C03
+open Gen
+open Sv
+
+/-! ### 1. records: what the writer emits is the specification encoding, field by field -/
+
+/-- the bytes of field `name` of record `r` are the specification encoding (`encodeInt` in the
+    declared byte order, at the gABI offset and width of table `l`) of `v` -/
+def IsSpecField (l : Spec.Layout) (enc : Enc) (r : Bytes) (name : String) (v : Nat) : Prop :=
+  slice r (Spec.field l name).1 (Spec.field l name).2 = encodeInt enc (Spec.field l name).2 v
+
+theorem isSpecField_idx (l : Spec.Layout) (enc : Enc) (fs : List (Nat × Nat)) (name : String) (k : Nat)
+    (hk : k < fs.length) (hf : Spec.field l name = (sumWidths (fs.take k), fs[k].1)) :
+    IsSpecField l enc (encodeFields enc fs) name fs[k].2 := by
+  unfold IsSpecField
+  rw [hf]
+  have h := slice_encodeFields enc (fs.take k) fs[k].1 fs[k].2 (fs.drop (k + 1))
+  have e : fs.take k ++ (fs[k].1, fs[k].2) :: fs.drop (k + 1) = fs := by
+    have : (fs[k].1, fs[k].2) = fs[k] := rfl
+    rw [this, List.getElem_cons_drop, List.take_append_drop]
+  rw [e] at h
+  exact h
+
+/-- reading a spec-encoded field back with the specification decoder gives the value (mod width) -/
+theorem get_of_isSpecField {l : Spec.Layout} {enc : Enc} {r : Bytes} {name : String} {v : Nat}
+    (h : IsSpecField l enc r name v) :
+    Spec.get l enc r 0 name = v % 2 ^ (8 * (Spec.field l name).2) := by
+  have hf : Spec.field l name = ((Spec.field l name).1, (Spec.field l name).2) := rfl
+  unfold IsSpecField at h
+  rw [C02.get_of_field hf, Nat.zero_add, h, decode_encodeInt]
+
+/-- a record found at `base` of an image reads the same as the record alone -/
+theorem get_at_base {l : Spec.Layout} {enc : Enc} {img r : Bytes} {base n : Nat} {name : String}
+    (hs : slice img base n = r) (hf : (Spec.field l name).1 + (Spec.field l name).2 ≤ n) :
+    Spec.get l enc img base name = Spec.get l enc r 0 name := by
+  have hf' : Spec.field l name = ((Spec.field l name).1, (Spec.field l name).2) := rfl
+  rw [C02.get_of_field hf', C02.get_of_field hf', ← hs, Nat.zero_add, slice_slice hf]
+
+theorem wrField1 (e x) : wrField e 1 x = encodeInt e 1 x := wrField_eq e 1 x (by decide)
+theorem wrField2 (e x) : wrField e 2 x = encodeInt e 2 x := wrField_eq e 2 x (by decide)
+theorem wrField4 (e x) : wrField e 4 x = encodeInt e 4 x := wrField_eq e 4 x (by decide)
+theorem wrField8 (e x) : wrField e 8 x = encodeInt e 8 x := wrField_eq e 8 x (by decide)
+
+/-- the section header record as (width, value) pairs in gABI order -/
+def shdrFields (c : Cls) (b : SecBuf) : List (Nat × Nat) :=
+  match c with
+  | .c32 => [(4, b.nameOff.toNat), (4, b.stype.toNat), (4, b.flags.toNat), (4, b.addr.toNat),
+      (4, b.offset.toNat), (4, b.size.toNat), (4, b.link.toNat), (4, b.info.toNat),
+      (4, b.addrAlign.toNat), (4, b.entSize.toNat)]
+  | .c64 => [(4, b.nameOff.toNat), (4, b.stype.toNat), (8, b.flags.toNat), (8, b.addr.toNat),
+      (8, b.offset.toNat), (8, b.size.toNat), (4, b.link.toNat), (4, b.info.toNat),
+      (8, b.addrAlign.toNat), (8, b.entSize.toNat)]
+
+def phdrFields (c : Cls) (g : Seg) : List (Nat × Nat) :=
+  match c with
+  | .c32 => [(4, g.stype.toNat), (4, g.offset.toNat), (4, g.vaddr.toNat), (4, g.paddr.toNat),
+      (4, g.filesz.toNat), (4, g.memsz.toNat), (4, g.flags.toNat), (4, g.align.toNat)]
+  | .c64 => [(4, g.stype.toNat), (4, g.flags.toNat), (8, g.offset.toNat), (8, g.vaddr.toNat),
+      (8, g.paddr.toNat), (8, g.filesz.toNat), (8, g.memsz.toNat), (8, g.align.toNat)]
+
+theorem encodeShdr_eq_fields (c : Cls) (enc : Enc) (b : SecBuf) :
+    encodeShdr c enc b = encodeFields enc (shdrFields c b) := by
+  cases c <;>
+    simp only [encodeShdr, shdrFields, encodeFields, wrField4, wrField8, List.append_assoc, List.append_nil]
+
+theorem encodePhdr_eq_fields (c : Cls) (enc : Enc) (g : Seg) :
+    encodePhdr c enc g = encodeFields enc (phdrFields c g) := by
+  cases c <;>
+    simp only [encodePhdr, phdrFields, encodeFields, wrField4, wrField8, List.append_assoc, List.append_nil]
+
+theorem encodeShdr_length (c : Cls) (enc : Enc) (b : SecBuf) : (encodeShdr c enc b).length = shdrSize c := by
+  rw [encodeShdr_eq_fields, encodeFields_length]; cases c <;> rfl
+
+theorem encodePhdr_length (c : Cls) (enc : Enc) (g : Seg) : (encodePhdr c enc g).length = phdrSize c := by
+  rw [encodePhdr_eq_fields, encodeFields_length]; cases c <;> rfl
+
+/-- **the section header record is the specification encoding of the section's fields**: every
+    field sits at the gABI offset with the gABI width, encoded (`encodeInt`) in the byte order `enc`
+    — the order the object was created with and that `e_ident[EI_DATA]` declares (`create_inv`). -/
+theorem encodeShdr_spec_bytes (c : Cls) (enc : Enc) (b : SecBuf) :
+    IsSpecField (Spec.shdrL c) enc (encodeShdr c enc b) "sh_name" b.nameOff.toNat ∧
+    IsSpecField (Spec.shdrL c) enc (encodeShdr c enc b) "sh_type" b.stype.toNat ∧
+    IsSpecField (Spec.shdrL c) enc (encodeShdr c enc b) "sh_flags" b.flags.toNat ∧
+    IsSpecField (Spec.shdrL c) enc (encodeShdr c enc b) "sh_addr" b.addr.toNat ∧
+    IsSpecField (Spec.shdrL c) enc (encodeShdr c enc b) "sh_offset" b.offset.toNat ∧
+    IsSpecField (Spec.shdrL c) enc (encodeShdr c enc b) "sh_size" b.size.toNat ∧
+    IsSpecField (Spec.shdrL c) enc (encodeShdr c enc b) "sh_link" b.link.toNat ∧
+    IsSpecField (Spec.shdrL c) enc (encodeShdr c enc b) "sh_info" b.info.toNat ∧
+    IsSpecField (Spec.shdrL c) enc (encodeShdr c enc b) "sh_addralign" b.addrAlign.toNat ∧
+    IsSpecField (Spec.shdrL c) enc (encodeShdr c enc b) "sh_entsize" b.entSize.toNat := by
+  rw [encodeShdr_eq_fields]
+  cases c
+  · exact ⟨isSpecField_idx Spec.shdr32 enc (shdrFields .c32 b) "sh_name" 0 (by simp [shdrFields]) rfl,
+      isSpecField_idx Spec.shdr32 enc (shdrFields .c32 b) "sh_type" 1 (by simp [shdrFields]) rfl,
+      isSpecField_idx Spec.shdr32 enc (shdrFields .c32 b) "sh_flags" 2 (by simp [shdrFields]) rfl,
+      isSpecField_idx Spec.shdr32 enc (shdrFields .c32 b) "sh_addr" 3 (by simp [shdrFields]) rfl,
+      isSpecField_idx Spec.shdr32 enc (shdrFields .c32 b) "sh_offset" 4 (by simp [shdrFields]) rfl,
+      isSpecField_idx Spec.shdr32 enc (shdrFields .c32 b) "sh_size" 5 (by simp [shdrFields]) rfl,
+      isSpecField_idx Spec.shdr32 enc (shdrFields .c32 b) "sh_link" 6 (by simp [shdrFields]) rfl,
+      isSpecField_idx Spec.shdr32 enc (shdrFields .c32 b) "sh_info" 7 (by simp [shdrFields]) rfl,
+      isSpecField_idx Spec.shdr32 enc (shdrFields .c32 b) "sh_addralign" 8 (by simp [shdrFields]) rfl,
+      isSpecField_idx Spec.shdr32 enc (shdrFields .c32 b) "sh_entsize" 9 (by simp [shdrFields]) rfl⟩
+  · exact ⟨isSpecField_idx Spec.shdr64 enc (shdrFields .c64 b) "sh_name" 0 (by simp [shdrFields]) rfl,
+      isSpecField_idx Spec.shdr64 enc (shdrFields .c64 b) "sh_type" 1 (by simp [shdrFields]) rfl,
+      isSpecField_idx Spec.shdr64 enc (shdrFields .c64 b) "sh_flags" 2 (by simp [shdrFields]) rfl,
+      isSpecField_idx Spec.shdr64 enc (shdrFields .c64 b) "sh_addr" 3 (by simp [shdrFields]) rfl,
+      isSpecField_idx Spec.shdr64 enc (shdrFields .c64 b) "sh_offset" 4 (by simp [shdrFields]) rfl,
+      isSpecField_idx Spec.shdr64 enc (shdrFields .c64 b) "sh_size" 5 (by simp [shdrFields]) rfl,
+      isSpecField_idx Spec.shdr64 enc (shdrFields .c64 b) "sh_link" 6 (by simp [shdrFields]) rfl,
+      isSpecField_idx Spec.shdr64 enc (shdrFields .c64 b) "sh_info" 7 (by simp [shdrFields]) rfl,
+      isSpecField_idx Spec.shdr64 enc (shdrFields .c64 b) "sh_addralign" 8 (by simp [shdrFields]) rfl,
+      isSpecField_idx Spec.shdr64 enc (shdrFields .c64 b) "sh_entsize" 9 (by simp [shdrFields]) rfl⟩
+
+/-- **the program header record is the specification encoding of the segment's fields** -/
+theorem encodePhdr_spec_bytes (c : Cls) (enc : Enc) (g : Seg) :
+    IsSpecField (Spec.phdrL c) enc (encodePhdr c enc g) "p_type" g.stype.toNat ∧
+    IsSpecField (Spec.phdrL c) enc (encodePhdr c enc g) "p_flags" g.flags.toNat ∧
+    IsSpecField (Spec.phdrL c) enc (encodePhdr c enc g) "p_offset" g.offset.toNat ∧
+    IsSpecField (Spec.phdrL c) enc (encodePhdr c enc g) "p_vaddr" g.vaddr.toNat ∧
+    IsSpecField (Spec.phdrL c) enc (encodePhdr c enc g) "p_paddr" g.paddr.toNat ∧
+    IsSpecField (Spec.phdrL c) enc (encodePhdr c enc g) "p_filesz" g.filesz.toNat ∧
+    IsSpecField (Spec.phdrL c) enc (encodePhdr c enc g) "p_memsz" g.memsz.toNat ∧
+    IsSpecField (Spec.phdrL c) enc (encodePhdr c enc g) "p_align" g.align.toNat := by
+  rw [encodePhdr_eq_fields]
+  cases c
+  · exact ⟨isSpecField_idx Spec.phdr32 enc (phdrFields .c32 g) "p_type" 0 (by simp [phdrFields]) rfl,
+      isSpecField_idx Spec.phdr32 enc (phdrFields .c32 g) "p_flags" 6 (by simp [phdrFields]) rfl,
+      isSpecField_idx Spec.phdr32 enc (phdrFields .c32 g) "p_offset" 1 (by simp [phdrFields]) rfl,
+      isSpecField_idx Spec.phdr32 enc (phdrFields .c32 g) "p_vaddr" 2 (by simp [phdrFields]) rfl,
+      isSpecField_idx Spec.phdr32 enc (phdrFields .c32 g) "p_paddr" 3 (by simp [phdrFields]) rfl,
+      isSpecField_idx Spec.phdr32 enc (phdrFields .c32 g) "p_filesz" 4 (by simp [phdrFields]) rfl,
+      isSpecField_idx Spec.phdr32 enc (phdrFields .c32 g) "p_memsz" 5 (by simp [phdrFields]) rfl,
+      isSpecField_idx Spec.phdr32 enc (phdrFields .c32 g) "p_align" 7 (by simp [phdrFields]) rfl⟩
+  · exact ⟨isSpecField_idx Spec.phdr64 enc (phdrFields .c64 g) "p_type" 0 (by simp [phdrFields]) rfl,
+      isSpecField_idx Spec.phdr64 enc (phdrFields .c64 g) "p_flags" 1 (by simp [phdrFields]) rfl,
+      isSpecField_idx Spec.phdr64 enc (phdrFields .c64 g) "p_offset" 2 (by simp [phdrFields]) rfl,
+      isSpecField_idx Spec.phdr64 enc (phdrFields .c64 g) "p_vaddr" 3 (by simp [phdrFields]) rfl,
+      isSpecField_idx Spec.phdr64 enc (phdrFields .c64 g) "p_paddr" 4 (by simp [phdrFields]) rfl,
+      isSpecField_idx Spec.phdr64 enc (phdrFields .c64 g) "p_filesz" 5 (by simp [phdrFields]) rfl,
+      isSpecField_idx Spec.phdr64 enc (phdrFields .c64 g) "p_memsz" 6 (by simp [phdrFields]) rfl,
+      isSpecField_idx Spec.phdr64 enc (phdrFields .c64 g) "p_align" 7 (by simp [phdrFields]) rfl⟩
+
+/-- the values fit the class's field widths.  ELF64: always.  ELF32: the six address-sized
+    fields are below 2^32 — which every setter guarantees by truncating (`truncA`, `setSize`). -/
+structure FieldsFit (c : Cls) (b : SecBuf) : Prop where
+  flags : c = .c32 → b.flags.toNat < 4294967296
+  addr : c = .c32 → b.addr.toNat < 4294967296
+  offset : c = .c32 → b.offset.toNat < 4294967296
+  size : c = .c32 → b.size.toNat < 4294967296
+  addrAlign : c = .c32 → b.addrAlign.toNat < 4294967296
+  entSize : c = .c32 → b.entSize.toNat < 4294967296
+
+structure SegFit (c : Cls) (g : Seg) : Prop where
+  offset : c = .c32 → g.offset.toNat < 4294967296
+  vaddr : c = .c32 → g.vaddr.toNat < 4294967296
+  paddr : c = .c32 → g.paddr.toNat < 4294967296
+  filesz : c = .c32 → g.filesz.toNat < 4294967296
+  memsz : c = .c32 → g.memsz.toNat < 4294967296
+  align : c = .c32 → g.align.toNat < 4294967296
+
+theorem fieldsFit_c64 (b : SecBuf) : FieldsFit .c64 b := by constructor <;> intro h <;> cases h
+theorem segFit_c64 (g : Seg) : SegFit .c64 g := by constructor <;> intro h <;> cases h
+
+theorem truncA_fit (c : Cls) (v : BitVec 64) : c = .c32 → (truncA c v).toNat < 4294967296 := by
+  intro h; subst h
+  simp only [truncA, BitVec.toNat_setWidth, Nat.reducePow]
+  omega
+
+private theorem get32 {l : Spec.Layout} {enc : Enc} {r : Bytes} {name : String} {x : BitVec 32}
+    (h : IsSpecField l enc r name x.toNat) (hw : (Spec.field l name).2 = 4) :
+    Spec.get l enc r 0 name = x.toNat := by
+  rw [get_of_isSpecField h, hw]; have := x.isLt; simp only [Nat.reducePow, Nat.reduceMul] at *; omega
+
+private theorem get64 {l : Spec.Layout} {enc : Enc} {r : Bytes} {name : String} {x : BitVec 64}
+    (h : IsSpecField l enc r name x.toNat) (hw : (Spec.field l name).2 = 8) :
+    Spec.get l enc r 0 name = x.toNat := by
+  rw [get_of_isSpecField h, hw]; have := x.isLt; simp only [Nat.reducePow, Nat.reduceMul] at *; omega
+
+private theorem get64' {l : Spec.Layout} {enc : Enc} {r : Bytes} {name : String} {x : BitVec 64}
+    (h : IsSpecField l enc r name x.toNat) (hw : (Spec.field l name).2 = 4) (hx : x.toNat < 4294967296) :
+    Spec.get l enc r 0 name = x.toNat := by
+  rw [get_of_isSpecField h, hw]; simp only [Nat.reducePow, Nat.reduceMul] at *; omega
+
+/-- **encodeShdr_eq_spec** : reading the emitted section header record with the *specification*
+    decoder (gABI offsets/widths of Spec/Records.lean, byte order `enc`) returns exactly the
+    section's fields. -/
+theorem encodeShdr_eq_spec (c : Cls) (enc : Enc) (b : SecBuf) (hf : FieldsFit c b) :
+    let r := encodeShdr c enc b; let l := Spec.shdrL c
+    Spec.get l enc r 0 "sh_name" = b.nameOff.toNat ∧ Spec.get l enc r 0 "sh_type" = b.stype.toNat ∧
+    Spec.get l enc r 0 "sh_flags" = b.flags.toNat ∧ Spec.get l enc r 0 "sh_addr" = b.addr.toNat ∧
+    Spec.get l enc r 0 "sh_offset" = b.offset.toNat ∧ Spec.get l enc r 0 "sh_size" = b.size.toNat ∧
+    Spec.get l enc r 0 "sh_link" = b.link.toNat ∧ Spec.get l enc r 0 "sh_info" = b.info.toNat ∧
+    Spec.get l enc r 0 "sh_addralign" = b.addrAlign.toNat ∧ Spec.get l enc r 0 "sh_entsize" = b.entSize.toNat := by
+  obtain ⟨h0, h1, h2, h3, h4, h5, h6, h7, h8, h9⟩ := encodeShdr_spec_bytes c enc b
+  cases c
+  · exact ⟨get32 h0 rfl, get32 h1 rfl, get64' h2 rfl (hf.flags rfl), get64' h3 rfl (hf.addr rfl),
+      get64' h4 rfl (hf.offset rfl), get64' h5 rfl (hf.size rfl), get32 h6 rfl, get32 h7 rfl,
+      get64' h8 rfl (hf.addrAlign rfl), get64' h9 rfl (hf.entSize rfl)⟩
+  · exact ⟨get32 h0 rfl, get32 h1 rfl, get64 h2 rfl, get64 h3 rfl, get64 h4 rfl, get64 h5 rfl,
+      get32 h6 rfl, get32 h7 rfl, get64 h8 rfl, get64 h9 rfl⟩
+
+/-- **encodePhdr_eq_spec** -/
+theorem encodePhdr_eq_spec (c : Cls) (enc : Enc) (g : Seg) (hf : SegFit c g) :
+    let r := encodePhdr c enc g; let l := Spec.phdrL c
+    Spec.get l enc r 0 "p_type" = g.stype.toNat ∧ Spec.get l enc r 0 "p_flags" = g.flags.toNat ∧
+    Spec.get l enc r 0 "p_offset" = g.offset.toNat ∧ Spec.get l enc r 0 "p_vaddr" = g.vaddr.toNat ∧
+    Spec.get l enc r 0 "p_paddr" = g.paddr.toNat ∧ Spec.get l enc r 0 "p_filesz" = g.filesz.toNat ∧
+    Spec.get l enc r 0 "p_memsz" = g.memsz.toNat ∧ Spec.get l enc r 0 "p_align" = g.align.toNat := by
+  obtain ⟨h0, h1, h2, h3, h4, h5, h6, h7⟩ := encodePhdr_spec_bytes c enc g
+  cases c
+  · exact ⟨get32 h0 rfl, get32 h1 rfl, get64' h2 rfl (hf.offset rfl), get64' h3 rfl (hf.vaddr rfl),
+      get64' h4 rfl (hf.paddr rfl), get64' h5 rfl (hf.filesz rfl), get64' h6 rfl (hf.memsz rfl),
+      get64' h7 rfl (hf.align rfl)⟩
+  · exact ⟨get32 h0 rfl, get32 h1 rfl, get64 h2 rfl, get64 h3 rfl, get64 h4 rfl, get64 h5 rfl,
+      get64 h6 rfl, get64 h7 rfl⟩
+
+/-- **decode ∘ encode = id** on the ten header fields (the model's decoder is the specification's:
+    `C02.shdr_fields_eq_spec`) -/
+theorem decodeShdr_encodeShdr (c : Cls) (enc : Enc) (b b0 : SecBuf) (hf : FieldsFit c b) :
+    let s := decodeShdr c enc (encodeShdr c enc b) b0
+    s.nameOff = b.nameOff ∧ s.stype = b.stype ∧ s.flags = b.flags ∧ s.addr = b.addr ∧
+    s.offset = b.offset ∧ s.size = b.size ∧ s.link = b.link ∧ s.info = b.info ∧
+    s.addrAlign = b.addrAlign ∧ s.entSize = b.entSize := by
+  obtain ⟨d0, d1, d2, d3, d4, d5, d6, d7, d8, d9⟩ :=
+    C02.shdr_fields_eq_spec c enc (encodeShdr c enc b) b0 (by rw [encodeShdr_length]; exact Nat.le_refl _)
+  obtain ⟨h0, h1, h2, h3, h4, h5, h6, h7, h8, h9⟩ := encodeShdr_eq_spec c enc b hf
+  exact ⟨BitVec.eq_of_toNat_eq (d0.trans h0), BitVec.eq_of_toNat_eq (d1.trans h1),
+    BitVec.eq_of_toNat_eq (d2.trans h2), BitVec.eq_of_toNat_eq (d3.trans h3),
+    BitVec.eq_of_toNat_eq (d4.trans h4), BitVec.eq_of_toNat_eq (d5.trans h5),
+    BitVec.eq_of_toNat_eq (d6.trans h6), BitVec.eq_of_toNat_eq (d7.trans h7),
+    BitVec.eq_of_toNat_eq (d8.trans h8), BitVec.eq_of_toNat_eq (d9.trans h9)⟩
+
+theorem decodePhdr_encodePhdr (c : Cls) (enc : Enc) (g g0 : Seg) (hf : SegFit c g) :
+    let s := decodePhdr c enc (encodePhdr c enc g) g0
+    s.stype = g.stype ∧ s.flags = g.flags ∧ s.offset = g.offset ∧ s.vaddr = g.vaddr ∧
+    s.paddr = g.paddr ∧ s.filesz = g.filesz ∧ s.memsz = g.memsz ∧ s.align = g.align := by
+  obtain ⟨d0, d1, d2, d3, d4, d5, d6, d7⟩ :=
+    C02.phdr_fields_eq_spec c enc (encodePhdr c enc g) g0 (by rw [encodePhdr_length]; exact Nat.le_refl _)
+  obtain ⟨h0, h1, h2, h3, h4, h5, h6, h7⟩ := encodePhdr_eq_spec c enc g hf
+  exact ⟨BitVec.eq_of_toNat_eq (d0.trans h0), BitVec.eq_of_toNat_eq (d1.trans h1),
+    BitVec.eq_of_toNat_eq (d2.trans h2), BitVec.eq_of_toNat_eq (d3.trans h3),
+    BitVec.eq_of_toNat_eq (d4.trans h4), BitVec.eq_of_toNat_eq (d5.trans h5),
+    BitVec.eq_of_toNat_eq (d6.trans h6), BitVec.eq_of_toNat_eq (d7.trans h7)⟩
+
+/-- non-vacuity: a concrete ELF32 section meets `FieldsFit`, and its big-endian record starts with
+    the name offset in big-endian order -/
+example : FieldsFit .c32 { SecBuf.fresh .c32 1 with nameOff := 0x0102, flags := 6, addr := 0x8000, size := 12 } := by
+  constructor <;> intro _ <;> decide
+example : (encodeShdr .c32 .msb { SecBuf.fresh .c32 1 with nameOff := 0x0102 }).take 4 = [0, 0, 1, 2] := by decide
+example : (encodeShdr .c32 .lsb { SecBuf.fresh .c32 1 with nameOff := 0x0102 }).take 4 = [2, 1, 0, 0] := by decide
+
+/-! ### 2. ELF header setters -/
+
+/-- the header fields with a setter -/
+inductive HField | type | machine | version | entry | phoff | shoff | flags | phnum | shnum | shstrndx
+  deriving DecidableEq, Repr
+
+namespace HField
+/-- gABI field name -/
+def name : HField → String
+  | .type => "e_type"
+  | .machine => "e_machine"
+  | .version => "e_version"
+  | .entry => "e_entry"
+  | .phoff => "e_phoff"
+  | .shoff => "e_shoff"
+  | .flags => "e_flags"
+  | .phnum => "e_phnum"
+  | .shnum => "e_shnum"
+  | .shstrndx => "e_shstrndx"
+/-- the model's setter (`elf_header_impl::set_*`: truncate to the field type, convert, store) -/
+def set : HField → Cls → Enc → Bytes → Nat → Bytes
+  | .type => Hdr.set_type
+  | .machine => Hdr.set_machine
+  | .version => Hdr.set_version
+  | .entry => Hdr.set_entry
+  | .phoff => Hdr.set_phoff
+  | .shoff => Hdr.set_shoff
+  | .flags => Hdr.set_flags
+  | .phnum => Hdr.set_phnum
+  | .shnum => Hdr.set_shnum
+  | .shstrndx => Hdr.set_shstrndx
+end HField
+
+/-- a field name of the table -/
+def ValidName (l : Spec.Layout) (name : String) : Prop := (l.find? (fun e => e.1 == name)).isSome = true
+instance (l : Spec.Layout) (name : String) : Decidable (ValidName l name) := by unfold ValidName; infer_instance
+
+theorem field_of_valid {l : Spec.Layout} {name : String} (h : ValidName l name) :
+    ∃ e ∈ l, e.1 = name ∧ Spec.field l name = e.2 := by
+  unfold ValidName at h
+  unfold Spec.field
+  cases hf : l.find? (fun e => e.1 == name) with
+  | none => rw [hf] at h; cases h
+  | some e =>
+    refine ⟨e, List.mem_of_find?_eq_some hf, ?_, rfl⟩
+    have := List.find?_some hf
+    simpa using this
+
+/-- the gABI ELF header table: distinct names occupy disjoint byte ranges inside the header -/
+theorem ehdr_table_ok (c : Cls) :
+    (∀ e1 ∈ Spec.ehdrL c, ∀ e2 ∈ Spec.ehdrL c, e1.1 ≠ e2.1 →
+      e1.2.1 + e1.2.2 ≤ e2.2.1 ∨ e2.2.1 + e2.2.2 ≤ e1.2.1) ∧
+    (∀ e ∈ Spec.ehdrL c, e.2.1 + e.2.2 ≤ Spec.ehdrSize c) := by
+  cases c <;> decide
+
+theorem hfield_valid (f : HField) (c : Cls) : ValidName (Spec.ehdrL c) f.name := by
+  cases f <;> cases c <;> decide
+
+/-- every setter stores the specification encoding of (the truncation of) its argument at the
+    field's gABI position -/
+theorem hdr_set_eq_wr (f : HField) (c : Cls) (enc : Enc) (h : Bytes) (v : Nat) :
+    f.set c enc h v = wr h (Spec.field (Spec.ehdrL c) f.name).1
+      (encodeInt enc (Spec.field (Spec.ehdrL c) f.name).2 v) := by
+  cases f <;> cases c <;>
+    (show wr h _ (wrField enc _ v) = _; rw [wrField_eq _ _ _ (by decide)]; rfl)
+
+theorem hdr_set_length (f : HField) (c : Cls) (enc : Enc) (h : Bytes) (v : Nat)
+    (hl : ehdrSize c ≤ h.length) : (f.set c enc h v).length = h.length := by
+  rw [hdr_set_eq_wr]
+  obtain ⟨e, he, _, hf⟩ := field_of_valid (hfield_valid f c)
+  have := (ehdr_table_ok c).2 e he
+  rw [(sizes_eq c).1] at hl
+  apply wr_length
+  rw [encodeInt_length, hf]; omega
+
+/-- **hdr_set_get** (specification level): after a setter, the specification decoder reads the
+    truncated argument from that field -/
+theorem hdr_set_get_spec (f : HField) (c : Cls) (enc : Enc) (h : Bytes) (v : Nat)
+    (hl : ehdrSize c ≤ h.length) :
+    Spec.get (Spec.ehdrL c) enc (f.set c enc h v) 0 f.name =
+      v % 2 ^ (8 * (Spec.field (Spec.ehdrL c) f.name).2) := by
+  apply get_of_isSpecField
+  unfold IsSpecField
+  rw [hdr_set_eq_wr]
+  obtain ⟨e, he, _, hf⟩ := field_of_valid (hfield_valid f c)
+  have := (ehdr_table_ok c).2 e he
+  rw [(sizes_eq c).1] at hl
+  have h1 := slice_wr_same h (encodeInt enc (Spec.field (Spec.ehdrL c) f.name).2 v)
+    (Spec.field (Spec.ehdrL c) f.name).1 (by rw [encodeInt_length, hf]; omega)
+  rw [encodeInt_length] at h1
+  exact h1
+
+/-- **hdr_set_frame** (specification level): every other field of the header reads as before -/
+theorem hdr_set_frame_spec (f : HField) (c : Cls) (enc : Enc) (h : Bytes) (v : Nat)
+    (hl : ehdrSize c ≤ h.length) (name : String) (hv : ValidName (Spec.ehdrL c) name)
+    (hne : name ≠ f.name) :
+    Spec.get (Spec.ehdrL c) enc (f.set c enc h v) 0 name = Spec.get (Spec.ehdrL c) enc h 0 name := by
+  obtain ⟨e, he, hen, hf⟩ := field_of_valid (hfield_valid f c)
+  obtain ⟨e', he', hen', hf'⟩ := field_of_valid hv
+  have hb := (ehdr_table_ok c).2 e he
+  have hd := (ehdr_table_ok c).1 e' he' e he (by rw [hen, hen']; exact hne)
+  rw [(sizes_eq c).1] at hl
+  have p : Spec.field (Spec.ehdrL c) name = ((Spec.field (Spec.ehdrL c) name).1, (Spec.field (Spec.ehdrL c) name).2) := rfl
+  rw [C02.get_of_field p, C02.get_of_field p, hdr_set_eq_wr, Nat.zero_add]
+  rw [slice_wr_other _ _ _ _ _ (by rw [encodeInt_length, hf]; omega)
+    (by rw [encodeInt_length, hf, hf']; omega)]
+
+theorem hfield_name_inj {f g : HField} (h : f.name = g.name) : f = g := by
+  cases f <;> cases g <;> first | rfl | (revert h; decide)
+
+/-- the bytes of the field a setter wrote -/
+theorem set_slice_same (f : HField) (c : Cls) (enc : Enc) (h : Bytes) (v : Nat) (hl : ehdrSize c ≤ h.length) :
+    slice (f.set c enc h v) (Spec.field (Spec.ehdrL c) f.name).1 (Spec.field (Spec.ehdrL c) f.name).2 =
+      encodeInt enc (Spec.field (Spec.ehdrL c) f.name).2 v := by
+  rw [hdr_set_eq_wr]
+  obtain ⟨e, he, _, hf⟩ := field_of_valid (hfield_valid f c)
+  have := (ehdr_table_ok c).2 e he
+  rw [(sizes_eq c).1] at hl
+  have h1 := slice_wr_same h (encodeInt enc (Spec.field (Spec.ehdrL c) f.name).2 v)
+    (Spec.field (Spec.ehdrL c) f.name).1 (by rw [encodeInt_length, hf]; omega)
+  rw [encodeInt_length] at h1
+  exact h1
+
+/-- the bytes of any other field are untouched -/
+theorem set_slice_other (f : HField) (c : Cls) (enc : Enc) (h : Bytes) (v : Nat) (hl : ehdrSize c ≤ h.length)
+    (name : String) (hv : ValidName (Spec.ehdrL c) name) (hne : name ≠ f.name) :
+    slice (f.set c enc h v) (Spec.field (Spec.ehdrL c) name).1 (Spec.field (Spec.ehdrL c) name).2 =
+      slice h (Spec.field (Spec.ehdrL c) name).1 (Spec.field (Spec.ehdrL c) name).2 := by
+  obtain ⟨e, he, hen, hf⟩ := field_of_valid (hfield_valid f c)
+  obtain ⟨e', he', hen', hf'⟩ := field_of_valid hv
+  have hb := (ehdr_table_ok c).2 e he
+  have hd := (ehdr_table_ok c).1 e' he' e he (by rw [hen, hen']; exact hne)
+  rw [(sizes_eq c).1] at hl
+  rw [hdr_set_eq_wr]
+  exact slice_wr_other _ _ _ _ _ (by rw [encodeInt_length, hf]; omega) (by rw [encodeInt_length, hf, hf']; omega)
+
+/-- setting a field to the value it holds changes nothing -/
+theorem set_absorb (f : HField) (c : Cls) (enc : Enc) (h : Bytes) (v : Nat) (hl : ehdrSize c ≤ h.length)
+    (hs : slice h (Spec.field (Spec.ehdrL c) f.name).1 (Spec.field (Spec.ehdrL c) f.name).2 =
+      encodeInt enc (Spec.field (Spec.ehdrL c) f.name).2 v) : f.set c enc h v = h := by
+  rw [hdr_set_eq_wr]
+  obtain ⟨e, he, _, hf⟩ := field_of_valid (hfield_valid f c)
+  have := (ehdr_table_ok c).2 e he
+  rw [(sizes_eq c).1] at hl
+  apply wr_self
+  · rw [encodeInt_length, hf]; omega
+  · rw [encodeInt_length]; exact hs
+
+/-- the later of two calls of the same setter wins -/
+theorem set_set (f : HField) (c : Cls) (enc : Enc) (h : Bytes) (v w : Nat) (hl : ehdrSize c ≤ h.length) :
+    f.set c enc (f.set c enc h v) w = f.set c enc h w := by
+  rw [hdr_set_eq_wr f c enc (f.set c enc h v), hdr_set_eq_wr f c enc h v, hdr_set_eq_wr f c enc h w]
+  obtain ⟨e, he, _, hf⟩ := field_of_valid (hfield_valid f c)
+  have := (ehdr_table_ok c).2 e he
+  rw [(sizes_eq c).1] at hl
+  apply wr_wr_same
+  · rw [encodeInt_length, hf]; omega
+  · rw [encodeInt_length, encodeInt_length]
+
+private theorem bv_eq_of {n} {x y : BitVec n} {a b : Nat} (hx : x.toNat = a) (hy : y.toNat = b) (h : a = b) :
+    x = y := BitVec.eq_of_toNat_eq (by rw [hx, hy, h])
+
+/-- **hdr_set_frame** (getter level): a setter changes no *other* getter's answer -/
+theorem hdr_set_frame (f : HField) (c : Cls) (enc : Enc) (h : Bytes) (v : Nat) (hl : ehdrSize c ≤ h.length) :
+    (f.name ≠ "e_type" → Hdr.e_type c enc (f.set c enc h v) = Hdr.e_type c enc h) ∧
+    (f.name ≠ "e_machine" → Hdr.e_machine c enc (f.set c enc h v) = Hdr.e_machine c enc h) ∧
+    (f.name ≠ "e_version" → Hdr.e_version c enc (f.set c enc h v) = Hdr.e_version c enc h) ∧
+    (f.name ≠ "e_entry" → Hdr.e_entry c enc (f.set c enc h v) = Hdr.e_entry c enc h) ∧
+    (f.name ≠ "e_phoff" → Hdr.e_phoff c enc (f.set c enc h v) = Hdr.e_phoff c enc h) ∧
+    (f.name ≠ "e_shoff" → Hdr.e_shoff c enc (f.set c enc h v) = Hdr.e_shoff c enc h) ∧
+    (f.name ≠ "e_flags" → Hdr.e_flags c enc (f.set c enc h v) = Hdr.e_flags c enc h) ∧
+    (f.name ≠ "e_ehsize" → Hdr.e_ehsize c enc (f.set c enc h v) = Hdr.e_ehsize c enc h) ∧
+    (f.name ≠ "e_phentsize" → Hdr.e_phentsize c enc (f.set c enc h v) = Hdr.e_phentsize c enc h) ∧
+    (f.name ≠ "e_phnum" → Hdr.e_phnum c enc (f.set c enc h v) = Hdr.e_phnum c enc h) ∧
+    (f.name ≠ "e_shentsize" → Hdr.e_shentsize c enc (f.set c enc h v) = Hdr.e_shentsize c enc h) ∧
+    (f.name ≠ "e_shnum" → Hdr.e_shnum c enc (f.set c enc h v) = Hdr.e_shnum c enc h) ∧
+    (f.name ≠ "e_shstrndx" → Hdr.e_shstrndx c enc (f.set c enc h v) = Hdr.e_shstrndx c enc h) := by
+  have hl' : ehdrSize c ≤ (f.set c enc h v).length := by rw [hdr_set_length f c enc h v hl]; exact hl
+  obtain ⟨a0, a1, a2, a3, a4, a5, a6, a7, a8, a9, a10, a11, a12⟩ := C02.ehdr_fields_eq_spec c enc h hl
+  obtain ⟨b0, b1, b2, b3, b4, b5, b6, b7, b8, b9, b10, b11, b12⟩ := C02.ehdr_fields_eq_spec c enc (f.set c enc h v) hl'
+  have fr : ∀ name, ValidName (Spec.ehdrL c) name → f.name ≠ name →
+      Spec.get (Spec.ehdrL c) enc (f.set c enc h v) 0 name = Spec.get (Spec.ehdrL c) enc h 0 name :=
+    fun name hv hne => hdr_set_frame_spec f c enc h v hl name hv (fun e => hne e.symm)
+  exact ⟨fun hn => bv_eq_of b0 a0 (fr _ (by cases c <;> decide) hn),
+    fun hn => bv_eq_of b1 a1 (fr _ (by cases c <;> decide) hn),
+    fun hn => bv_eq_of b2 a2 (fr _ (by cases c <;> decide) hn),
+    fun hn => bv_eq_of b3 a3 (fr _ (by cases c <;> decide) hn),
+    fun hn => bv_eq_of b4 a4 (fr _ (by cases c <;> decide) hn),
+    fun hn => bv_eq_of b5 a5 (fr _ (by cases c <;> decide) hn),
+    fun hn => bv_eq_of b6 a6 (fr _ (by cases c <;> decide) hn),
+    fun hn => bv_eq_of b7 a7 (fr _ (by cases c <;> decide) hn),
+    fun hn => bv_eq_of b8 a8 (fr _ (by cases c <;> decide) hn),
+    fun hn => bv_eq_of b9 a9 (fr _ (by cases c <;> decide) hn),
+    fun hn => bv_eq_of b10 a10 (fr _ (by cases c <;> decide) hn),
+    fun hn => bv_eq_of b11 a11 (fr _ (by cases c <;> decide) hn),
+    fun hn => bv_eq_of b12 a12 (fr _ (by cases c <;> decide) hn)⟩
+
+/-- **hdr_set_get** (getter level): each getter returns the argument of its setter truncated to
+    the field's width -/
+theorem hdr_set_get (c : Cls) (enc : Enc) (h : Bytes) (v : Nat) (hl : ehdrSize c ≤ h.length) :
+    (Hdr.e_type c enc (Hdr.set_type c enc h v)).toNat = v % 65536 ∧
+    (Hdr.e_machine c enc (Hdr.set_machine c enc h v)).toNat = v % 65536 ∧
+    (Hdr.e_version c enc (Hdr.set_version c enc h v)).toNat = v % 4294967296 ∧
+    (Hdr.e_entry c enc (Hdr.set_entry c enc h v)).toNat =
+      v % (match c with | .c32 => 4294967296 | .c64 => 18446744073709551616) ∧
+    (Hdr.e_phoff c enc (Hdr.set_phoff c enc h v)).toNat =
+      v % (match c with | .c32 => 4294967296 | .c64 => 18446744073709551616) ∧
+    (Hdr.e_shoff c enc (Hdr.set_shoff c enc h v)).toNat =
+      v % (match c with | .c32 => 4294967296 | .c64 => 18446744073709551616) ∧
+    (Hdr.e_flags c enc (Hdr.set_flags c enc h v)).toNat = v % 4294967296 ∧
+    (Hdr.e_phnum c enc (Hdr.set_phnum c enc h v)).toNat = v % 65536 ∧
+    (Hdr.e_shnum c enc (Hdr.set_shnum c enc h v)).toNat = v % 65536 ∧
+    (Hdr.e_shstrndx c enc (Hdr.set_shstrndx c enc h v)).toNat = v % 65536 := by
+  have g : ∀ f : HField, _ := fun f => hdr_set_get_spec f c enc h v hl
+  have l : ∀ f : HField, ehdrSize c ≤ (f.set c enc h v).length :=
+    fun f => by rw [hdr_set_length f c enc h v hl]; exact hl
+  refine ⟨?_, ?_, ?_, ?_, ?_, ?_, ?_, ?_, ?_, ?_⟩
+  · have t := (C02.ehdr_fields_eq_spec c enc (HField.type.set c enc h v) (l .type)).1; have e := g .type; cases c <;> exact t.trans e
+  · have t := (C02.ehdr_fields_eq_spec c enc (HField.machine.set c enc h v) (l .machine)).2.1; have e := g .machine; cases c <;> exact t.trans e
+  · have t := (C02.ehdr_fields_eq_spec c enc (HField.version.set c enc h v) (l .version)).2.2.1; have e := g .version; cases c <;> exact t.trans e
+  · have t := (C02.ehdr_fields_eq_spec c enc (HField.entry.set c enc h v) (l .entry)).2.2.2.1; have e := g .entry; cases c <;> exact t.trans e
+  · have t := (C02.ehdr_fields_eq_spec c enc (HField.phoff.set c enc h v) (l .phoff)).2.2.2.2.1; have e := g .phoff; cases c <;> exact t.trans e
+  · have t := (C02.ehdr_fields_eq_spec c enc (HField.shoff.set c enc h v) (l .shoff)).2.2.2.2.2.1; have e := g .shoff; cases c <;> exact t.trans e
+  · have t := (C02.ehdr_fields_eq_spec c enc (HField.flags.set c enc h v) (l .flags)).2.2.2.2.2.2.1; have e := g .flags; cases c <;> exact t.trans e
+  · have t := (C02.ehdr_fields_eq_spec c enc (HField.phnum.set c enc h v) (l .phnum)).2.2.2.2.2.2.2.2.2.1; have e := g .phnum; cases c <;> exact t.trans e
+  · have t := (C02.ehdr_fields_eq_spec c enc (HField.shnum.set c enc h v) (l .shnum)).2.2.2.2.2.2.2.2.2.2.2.1; have e := g .shnum; cases c <;> exact t.trans e
+  · have t := (C02.ehdr_fields_eq_spec c enc (HField.shstrndx.set c enc h v) (l .shstrndx)).2.2.2.2.2.2.2.2.2.2.2.2; have e := g .shstrndx; cases c <;> exact t.trans e
+
+/-- `set_ident`-style single byte stores (`e_ident[i]`): the byte reads back, others unchanged -/
+theorem hdr_set_ident_get (h : Bytes) (i v : Nat) (hi : i < h.length) :
+    Hdr.ident (Hdr.set_ident h i v) i = BitVec.ofNat 8 (v % 256) ∧
+    ∀ j, j ≠ i → Hdr.ident (Hdr.set_ident h i v) j = Hdr.ident h j := by
+  unfold Hdr.ident Hdr.set_ident
+  constructor
+  · rw [List.getD_eq_getElem?_getD, wr_getElem? _ _ _ _ (by simp only [List.length_cons, List.length_nil]; omega)]
+    simp
+  · intro j hj
+    rw [List.getD_eq_getElem?_getD, List.getD_eq_getElem?_getD, wr_getElem? _ _ _ _ (by simp only [List.length_cons, List.length_nil]; omega)]
+    simp only [List.length_cons, List.length_nil]
+    ite_omega
+
+example : Hdr.e_machine .c64 .msb (Hdr.set_machine .c64 .msb (Hdr.create .c64 .msb 2) 0x1003E) = 0x3E#16 := by decide
+
+/-! ### 2b. construction through the API -/
+
+def shstrtabName : Bytes := [46, 115, 104, 115, 116, 114, 116, 97, 98]     -- ".shstrtab"
+
+theorem shstrtab_utf8 : ".shstrtab".toUTF8.toList = shstrtabName := by decide +kernel
+
+/-- the section-name string table as `create` leaves it -/
+def shstrtab0 (c : Cls) (te : Bool) : SecBuf :=
+  { cls := c, stype := BitVec.ofNat 32 SHT_STRTAB, size := 11,
+    data := some ([0] ++ shstrtabName ++ [0, 0]), dataSize := 12,
+    streamSize := if te then 11 else 0, translatorEmpty := te, fileData := some [], index := 1,
+    name := shstrtabName, nameOff := 1, addrAlign := 1 }
+
+/-- the object `create` produces, in closed form -/
+def createObj (o : Obj) (c : Cls) (e : Enc) : Obj :=
+  { o with cls := c, enc := e, hdr := some (Hdr.set_shstrndx c e (Hdr.create c e (encByte e)) 1),
+           secs := [{ SecBuf.fresh c 0 with translatorEmpty := o.trans.isEmpty }, shstrtab0 c o.trans.isEmpty],
+           segs := [] }
+
+set_option maxRecDepth 20000 in
+theorem create_eq (o : Obj) (c : Cls) (e : Enc) : create o c e = .ok (createObj o c e) := by
+  unfold create createObj sectionsAdd newSection
+  rw [shstrtab_utf8]
+  simp only []
+  generalize o.trans.isEmpty = te
+  cases c <;> cases e <;> cases te <;> rfl
+
+/-- the header `create` writes: identification per specification (magic, class, **the byte order
+    the multi-byte fields are then stored in**, version), `e_version = 1`, the three record sizes,
+    `e_shstrndx = 1`, everything else zero -/
+theorem create_header (c : Cls) (e : Enc) :
+    let h := Hdr.set_shstrndx c e (Hdr.create c e (encByte e)) 1
+    h.length = ehdrSize c ∧ slice h 0 4 = Spec.ELFMAG ∧
+    (Hdr.ident h Spec.EI_CLASS).toNat = (match c with | .c32 => Spec.ELFCLASS32 | .c64 => Spec.ELFCLASS64) ∧
+    (Hdr.ident h Spec.EI_DATA).toNat = (match e with | .lsb => Spec.ELFDATA2LSB | .msb => Spec.ELFDATA2MSB) ∧
+    Hdr.e_version c e h = 1 ∧ (Hdr.e_ehsize c e h).toNat = Spec.ehdrSize c ∧
+    (Hdr.e_phentsize c e h).toNat = Spec.phdrSize c ∧ (Hdr.e_shentsize c e h).toNat = Spec.shdrSize c ∧
+    Hdr.e_shstrndx c e h = 1 ∧ Hdr.e_type c e h = 0 ∧ Hdr.e_machine c e h = 0 ∧ Hdr.e_entry c e h = 0 ∧
+    Hdr.e_flags c e h = 0 ∧ Hdr.e_phoff c e h = 0 ∧ Hdr.e_shoff c e h = 0 ∧ Hdr.e_phnum c e h = 0 ∧
+    Hdr.e_shnum c e h = 0 := by
+  cases c <;> cases e <;> decide
+
+theorem shstrtab0_inv (c : Cls) (te : Bool) :
+    (shstrtab0 c te).Inv ∧ (shstrtab0 c te).content = [0] ++ shstrtabName ++ [0] := by
+  have hr : (shstrtab0 c te).Resident := by
+    cases c <;> cases te <;>
+    exact { notNobits := by decide, pend := (fun h => nomatch h),
+            buf := Or.inr ⟨_, rfl, by decide, by decide⟩, cap := by decide }
+  refine ⟨Or.inl hr, ?_⟩
+  rw [C07.content_resident hr]
+  rfl
+
+/-- **create_inv** : `create c e` always succeeds and leaves: class and byte order as requested, no
+    segments, the header of `create_header` (whose `EI_DATA` byte declares `e`), exactly two sections —
+    the null section (index 0, type `SHT_NULL`, empty, no address) and `.shstrtab` (index 1, type
+    `SHT_STRTAB`, alignment 1, a consistent buffer holding `"\0.shstrtab\0"`, its own name at offset 1)
+    — and `e_shstrndx = 1`. -/
+theorem create_inv (o : Obj) (c : Cls) (e : Enc) :
+    ∃ o' h s0 s1, create o c e = .ok o' ∧ o'.cls = c ∧ o'.enc = e ∧ o'.segs = [] ∧ o'.trans = o.trans ∧
+      o'.hdr = some h ∧ h = Hdr.set_shstrndx c e (Hdr.create c e (encByte e)) 1 ∧
+      (Hdr.e_shstrndx c e h).toNat = 1 ∧ o'.secs = [s0, s1] ∧
+      s0.index = 0 ∧ s0.stype = BitVec.ofNat 32 SHT_NULL ∧ s0.size = 0 ∧ s0.nameOff = 0 ∧ s0.addrSet = false ∧
+      s0.data = none ∧ s0.cls = c ∧
+      s1.index = 1 ∧ s1.stype = BitVec.ofNat 32 SHT_STRTAB ∧ s1.addrAlign = 1 ∧ s1.cls = c ∧
+      s1.name = shstrtabName ∧ s1.nameOff = 1 ∧ s1.addrSet = false ∧ s1.Inv ∧
+      s1.content = [0] ++ shstrtabName ++ [0] ∧ Spec.strAt s1.content s1.nameOff.toNat = some s1.name := by
+  refine ⟨createObj o c e, _, _, _, create_eq o c e, rfl, rfl, rfl, rfl, rfl, rfl, ?_, rfl,
+    rfl, rfl, rfl, rfl, rfl, rfl, rfl, rfl, rfl, rfl, rfl, rfl, rfl, rfl, (shstrtab0_inv c _).1, (shstrtab0_inv c _).2, ?_⟩
+  · have := (create_header c e).2.2.2.2.2.2.2.2.1
+    rw [this]; rfl
+  · rw [(shstrtab0_inv c _).2]
+    show Spec.strAt ([0] ++ shstrtabName ++ [0]) 1 = some shstrtabName
+    decide
+
+theorem cstr_idem (s : Bytes) : Spec.cstr (Spec.cstr s) = Spec.cstr s := by
+  induction s with
+  | nil => rfl
+  | cons x xs ih =>
+    by_cases hx : x = 0
+    · subst hx; rfl
+    · rw [Spec.cstr_cons, if_neg hx, Spec.cstr_cons, if_neg hx, ih]
+
+theorem addStr_cstr (t s : Bytes) : Spec.addStr t (Spec.cstr s) = Spec.addStr t s := by
+  unfold Spec.addStr; rw [cstr_idem]
+
+/-- **sectionsAdd_name** : `sections.add(name)` on an object whose section-name string table `st`
+    (section `e_shstrndx`, an existing section) is consistent (`SecBuf.Inv`) and stays below 4 GiB:
+    succeeds; appends exactly one fresh section `nb` (index = old count mod 2^16, the given name, type
+    0, no data, no address); the string table becomes the reference addition of the name's C string
+    (`Spec.addStr`, C08) and keeps all its header fields (`DataFrame`); `nb.nameOff` points at the
+    name's C string inside the new table; every string that could be read from the old table reads
+    the same from the new one (so all earlier sections' name offsets stay valid); every other
+    section is untouched. -/
+theorem sectionsAdd_name (o : Obj) (name : Bytes) (h : Bytes) (st : SecBuf) (hh : o.hdr = some h)
+    (hst : o.secs[(Hdr.e_shstrndx o.cls o.enc h).toNat]? = some st) (hI : st.Inv)
+    (hb : (Spec.addStr st.content name).1.length < 4294967296) :
+    ∃ o' st' nb, sectionsAdd o name = .ok o' ∧ o' = { o with secs := o'.secs } ∧
+      o'.secs.length = o.secs.length + 1 ∧
+      o'.secs[(Hdr.e_shstrndx o.cls o.enc h).toNat]? = some st' ∧ st'.Inv ∧ DataFrame st st' ∧
+      st'.content = (Spec.addStr st.content name).1 ∧
+      o'.secs[o.secs.length]? = some nb ∧
+      nb = { newSection o with name := name, nameOff := nb.nameOff } ∧
+      Spec.strAt st'.content nb.nameOff.toNat = some (Spec.cstr name) ∧
+      (∀ k s, Spec.strAt st.content k = some s → Spec.strAt st'.content k = some s) ∧
+      (∀ i, i < o.secs.length → i ≠ (Hdr.e_shstrndx o.cls o.enc h).toNat → o'.secs[i]? = o.secs[i]?) := by
+  have hlt : (Hdr.e_shstrndx o.cls o.enc h).toNat < o.secs.length := by
+    rcases Nat.lt_or_ge (Hdr.e_shstrndx o.cls o.enc h).toNat o.secs.length with hl | hl
+    · exact hl
+    · rw [List.getElem?_eq_none hl] at hst; cases hst
+  obtain ⟨st', pos, ea, hI', fr, ec, ep⟩ := addString_refines st hI (Spec.cstr name) (by rw [addStr_cstr]; exact hb)
+  rw [addStr_cstr] at ec ep
+  unfold sectionsAdd
+  simp only [hh, Option.getD_some]
+  generalize hk : (Hdr.e_shstrndx o.cls o.enc h).toNat = k at hst hlt ⊢
+  have h1 : (o.secs ++ [{ newSection o with name := name }])[k]? = some st := by
+    rw [List.getElem?_append_left hlt]; exact hst
+  rw [h1]
+  simp only
+  have e1 : List.takeWhile (fun x => decide (x ≠ 0)) name = Spec.cstr name := takeWhile_ne_eq_cstr name
+  rw [e1, ea]
+  simp only [bind, Except.bind, pure, Except.pure, List.length_set, List.length_append, List.length_cons,
+    List.length_nil, Nat.zero_add, Nat.add_sub_cancel]
+  have h2 : ((o.secs ++ [{ newSection o with name := name }]).set k st')[o.secs.length]? =
+      some { newSection o with name := name } := by
+    rw [List.getElem?_set_ne (by omega), List.getElem?_append_right (Nat.le_refl _)]
+    simp
+  rw [h2]
+  simp only
+  refine ⟨_, st', { newSection o with name := name, nameOff := pos }, rfl, rfl, ?_, ?_, hI', fr, ec, ?_, rfl, ?_, ?_, ?_⟩
+  · simp
+  · rw [List.getElem?_set_ne (by omega), List.getElem?_set_self (by simp; omega)]
+  · rw [List.getElem?_set_self (by simp)]
+  · simp only
+    rw [ec, ep, Spec.addStr_get]
+  · intro k' s hs
+    rw [ec]; exact Spec.addStr_stable _ _ _ _ hs
+  · intro i hi hne
+    rw [List.getElem?_set_ne (by omega), List.getElem?_set_ne (by omega), List.getElem?_append_left hi]
+
+/-! ### 3. the stream: what `adjust_stream_size` + `write` leave in the file -/
+
+/-- **saveSection_writes** : on a stream that has not failed and has no byte budget,
+    `adjust_stream_size(off)` followed by `write(bs)` yields a stream (still good) whose content has
+    `bs` at `[off, off+len)`, has length `max(old length, off+len)`, and agrees with the old content on
+    every range below the old length that does not meet `[off, off+len)`; the bytes between the old
+    end and `off` are zero. -/
+theorem saveSection_writes (s : OStream) (hg : s.Good) (off : Nat) (bs : Bytes) :
+    let s' := (s.adjust (off : Int)).write bs
+    s'.Good ∧ slice s'.content off bs.length = bs ∧
+    s'.content.length = max s.content.length (off + bs.length) ∧
+    (∀ a n, a + n ≤ s.content.length → (a + n ≤ off ∨ off + bs.length ≤ a) →
+      slice s'.content a n = slice s.content a n) ∧
+    (∀ i, s.content.length ≤ i → i < off → s'.content[i]? = some 0) := by
+  obtain ⟨g, l, e⟩ := adjust_write_spec s hg off bs
+  refine ⟨g, adjust_write_slice s hg off bs, l, fun a n ha hd => adjust_write_frame s hg off bs a n ha hd,
+    fun i h1 h2 => ?_⟩
+  rw [e, if_neg (by omega), if_neg (by omega), if_pos h2]
+
+example : ((({ content := [1, 2, 3] } : OStream).adjust 5).write [9, 9]).content = [1, 2, 3, 0, 0, 9, 9] := by decide
+example : ((({ content := [1, 2, 3, 4] } : OStream).adjust 1).write [9, 9]).content = [1, 9, 9, 4] := by decide
+example : ({ content := [1, 2, 3] } : OStream).Good := ⟨rfl, rfl⟩
+
+/-! ### 4. the composition: what a successful `save` leaves in the stream -/
+
+/-- **C04's conclusion, taken as a hypothesis here**: the byte ranges `save` writes — ELF header,
+    every section header record, the data of every file-occupying non-empty section, every program
+    header record — are pairwise disjoint (`layout_disjoint` of C04), and no offset reaches 2^63
+    (`std::streamoff` is signed).  `h`, `secs`, `segs` are the header, sections and segments of the
+    *saved* object. -/
+structure LayoutOk (c : Cls) (enc : Enc) (h : Bytes) (secs : List SecBuf) (segs : List Seg) : Prop where
+  disjoint : (objWrites c enc h secs segs).Pairwise WDisj
+  shoffLt : (Hdr.e_shoff c enc h).toNat < 9223372036854775808
+  phoffLt : (Hdr.e_phoff c enc h).toNat < 9223372036854775808
+  offLt : ∀ b ∈ secs, secWritten b = true → b.offset.toNat < 9223372036854775808
+
+/-- **save_decodes** (all rungs at once — objects without segments, flat and nested segments —
+    because the layout fact the rungs differ in is the hypothesis `LayoutOk`): after a successful
+    `save` into a good stream, of an object without address translation, every positioned write of
+    the saved object is found in the stream: the ELF header at 0, the record of every section at
+    `e_shoff + index·e_shentsize`, the data of every file-occupying non-empty section at its offset,
+    the record of every segment at `e_phoff + index·e_phentsize`. -/
+theorem save_decodes {o : Obj} {os : OStream} {r : SaveRes} (hs : save o os = .ok r) (hok : r.ok = true)
+    (hg : os.Good) (htr : o.trans = []) {h : Bytes} (hh : r.obj.hdr = some h)
+    (hl : LayoutOk r.obj.cls r.obj.enc h r.obj.secs r.obj.segs) :
+    r.os.Good ∧ ∀ w ∈ objWrites r.obj.cls r.obj.enc h r.obj.secs r.obj.segs,
+      slice r.os.content w.1 w.2.length = w.2 := by
+  obtain ⟨hd, segs1, ordered, lay, done, _, _, _, _, _, rfl⟩ := save_ok_unfold hs hok
+  obtain ⟨_, eobj, eos, _⟩ := saveTail_ok hok
+  rw [eobj] at hh hl
+  simp only [Option.some.injEq] at hh
+  subst hh
+  rw [eobj, eos]
+  simp only at hl ⊢
+  rw [tailOs_eq (preRes o) os _ segs1 lay done hg htr hl.shoffLt hl.phoffLt hl.offLt]
+  exact ⟨applyWrites_good _ _ hg, applyWrites_slices _ os hg hl.disjoint⟩
+
+/-- the ELF header is at the start of the file -/
+theorem save_decodes_header {o : Obj} {os : OStream} {r : SaveRes} (hs : save o os = .ok r) (hok : r.ok = true)
+    (hg : os.Good) (htr : o.trans = []) {h : Bytes} (hh : r.obj.hdr = some h)
+    (hl : LayoutOk r.obj.cls r.obj.enc h r.obj.secs r.obj.segs) :
+    slice r.os.content 0 h.length = h :=
+  (save_decodes hs hok hg htr hh hl).2 (0, h) List.mem_cons_self
+
+/-- the record of every section, and its data -/
+theorem save_decodes_section {o : Obj} {os : OStream} {r : SaveRes} (hs : save o os = .ok r) (hok : r.ok = true)
+    (hg : os.Good) (htr : o.trans = []) {h : Bytes} (hh : r.obj.hdr = some h)
+    (hl : LayoutOk r.obj.cls r.obj.enc h r.obj.secs r.obj.segs) {b : SecBuf} (hb : b ∈ r.obj.secs) :
+    slice r.os.content ((Hdr.e_shoff r.obj.cls r.obj.enc h).toNat +
+        (Hdr.e_shentsize r.obj.cls r.obj.enc h).toNat * b.index) (shdrSize r.obj.cls) =
+      encodeShdr r.obj.cls r.obj.enc b ∧
+    (b.stype ≠ BitVec.ofNat 32 SHT_NOBITS → b.stype ≠ BitVec.ofNat 32 SHT_NULL → b.size ≠ 0 →
+      ∀ d, b.data = some d → slice r.os.content b.offset.toNat (d.take b.size.toNat).length = d.take b.size.toNat) := by
+  have key := (save_decodes hs hok hg htr hh hl).2
+  have hmem : ∀ w ∈ secWrites r.obj.cls r.obj.enc (Hdr.e_shoff r.obj.cls r.obj.enc h)
+      (Hdr.e_shentsize r.obj.cls r.obj.enc h) b, w ∈ objWrites r.obj.cls r.obj.enc h r.obj.secs r.obj.segs := by
+    intro w hw
+    unfold objWrites
+    exact List.mem_cons_of_mem _ (List.mem_append_left _ (List.mem_flatMap.2 ⟨b, hb, hw⟩))
+  constructor
+  · have := key _ (hmem _ (by unfold secWrites; exact List.mem_cons_self))
+    simpa only [encodeShdr_length] using this
+  · intro h1 h2 h3 d hd
+    have hc : (b.stype != BitVec.ofNat 32 SHT_NOBITS && b.stype != BitVec.ofNat 32 SHT_NULL && b.size != 0 &&
+        b.data.isSome) = true := by
+      simp [h1, h2, hd]; exact h3
+    have := key (b.offset.toNat, (b.data.getD []).take b.size.toNat) (hmem _ (by
+      unfold secWrites; rw [if_pos hc]; exact List.mem_cons_of_mem _ List.mem_cons_self))
+    simpa only [hd, Option.getD_some] using this
+
+/-- the record of every segment -/
+theorem save_decodes_segment {o : Obj} {os : OStream} {r : SaveRes} (hs : save o os = .ok r) (hok : r.ok = true)
+    (hg : os.Good) (htr : o.trans = []) {h : Bytes} (hh : r.obj.hdr = some h)
+    (hl : LayoutOk r.obj.cls r.obj.enc h r.obj.secs r.obj.segs) {g : Seg} (hb : g ∈ r.obj.segs) :
+    slice r.os.content ((Hdr.e_phoff r.obj.cls r.obj.enc h).toNat +
+        (Hdr.e_phentsize r.obj.cls r.obj.enc h).toNat * g.index) (phdrSize r.obj.cls) =
+      encodePhdr r.obj.cls r.obj.enc g := by
+  have := (save_decodes hs hok hg htr hh hl).2 (segWrite r.obj.cls r.obj.enc (Hdr.e_phoff r.obj.cls r.obj.enc h)
+    (Hdr.e_phentsize r.obj.cls r.obj.enc h) g) (by
+      unfold objWrites
+      exact List.mem_cons_of_mem _ (List.mem_append_right _ (List.mem_map.2 ⟨g, hb, rfl⟩)))
+  simpa only [segWrite, encodePhdr_length] using this
+
+/-! ### 5. the saved bytes decode to what was put in -/
+
+theorem placed_fit {c : Cls} {a b : SecBuf} (h : Placed c a b) (hf : FieldsFit c a) : FieldsFit c b := by
+  induction h with
+  | refl => exact hf
+  | off v _ ih =>
+    unfold setOffset
+    split
+    · exact ⟨ih.flags, ih.addr, truncA_fit c v, ih.size, ih.addrAlign, ih.entSize⟩
+    · exact ih
+  | addr x _ _ ih => exact ⟨ih.flags, truncA_fit c x, ih.offset, ih.size, ih.addrAlign, ih.entSize⟩
+
+theorem resFrame_fit {c : Cls} {a b : SecBuf} (h : ResFrame a b) (hf : FieldsFit c a) : FieldsFit c b := by
+  rw [h.rest]; exact ⟨hf.flags, hf.addr, hf.offset, hf.size, hf.addrAlign, hf.entSize⟩
+
+/-- the header fields the user controls (and the three size fields the constructor sets) -/
+def userHdr (c : Cls) (enc : Enc) (h : Bytes) :=
+  (Hdr.e_type c enc h, Hdr.e_machine c enc h, Hdr.e_version c enc h, Hdr.e_entry c enc h, Hdr.e_flags c enc h,
+   Hdr.e_ehsize c enc h, Hdr.e_phentsize c enc h, Hdr.e_shentsize c enc h, Hdr.e_shstrndx c enc h,
+   Spec.get (Spec.ehdrL c) enc h 0 "e_ident")
+
+/-- the four layout setters (`e_phnum`, `e_phoff`, `e_shnum`, `e_shoff`) leave the user's fields alone -/
+theorem userHdr_layout_setter (f : HField) (hf : f = .phnum ∨ f = .phoff ∨ f = .shnum ∨ f = .shoff)
+    (c : Cls) (enc : Enc) (h : Bytes) (v : Nat) (hl : ehdrSize c ≤ h.length) :
+    userHdr c enc (f.set c enc h v) = userHdr c enc h ∧ ehdrSize c ≤ (f.set c enc h v).length := by
+  obtain ⟨a0, a1, a2, a3, _, _, a6, a7, a8, _, a10, _, a12⟩ := hdr_set_frame f c enc h v hl
+  have hid := hdr_set_frame_spec f c enc h v hl "e_ident" (by cases c <;> decide)
+  refine ⟨?_, by rw [hdr_set_length f c enc h v hl]; exact hl⟩
+  unfold userHdr
+  rcases hf with rfl | rfl | rfl | rfl <;>
+    rw [a0 (by decide), a1 (by decide), a2 (by decide), a3 (by decide), a6 (by decide), a7 (by decide),
+      a8 (by decide), a10 (by decide), a12 (by decide), hid (by decide)]
+
+/-- **the header of the saved object**: the user's fields are those of the object; the counts are
+    the numbers of sections and segments (mod 2^16) -/
+theorem save_header_fields {o : Obj} {os : OStream} {r : SaveRes} (hs : save o os = .ok r) (hok : r.ok = true) :
+    ∃ hd h, o.hdr = some hd ∧ r.obj.hdr = some h ∧ (ehdrSize o.cls ≤ hd.length →
+      h.length = hd.length ∧ userHdr o.cls o.enc h = userHdr o.cls o.enc hd ∧
+      (Hdr.e_shnum o.cls o.enc h).toNat = o.secs.length % 65536 ∧
+      (Hdr.e_phnum o.cls o.enc h).toNat = o.segs.length % 65536) := by
+  obtain ⟨hd, x, h1, h2⟩ := save_hdr_eq hs hok
+  refine ⟨hd, _, h1, h2, fun hl => ?_⟩
+  unfold saveHdr0
+  simp only
+  generalize hv : (if o.segs.length % 65536 > 0 then
+    (Hdr.e_ehsize o.cls o.enc (Hdr.set_phnum o.cls o.enc hd (o.segs.length % 65536))).toNat else 0) = v
+  obtain ⟨u1, l1⟩ := userHdr_layout_setter .phnum (Or.inl rfl) o.cls o.enc hd (o.segs.length % 65536) hl
+  obtain ⟨u2, l2⟩ := userHdr_layout_setter .phoff (Or.inr (Or.inl rfl)) o.cls o.enc _ v l1
+  obtain ⟨u3, l3⟩ := userHdr_layout_setter .shnum (Or.inr (Or.inr (Or.inl rfl))) o.cls o.enc _ (o.secs.length % 65536) l2
+  obtain ⟨u4, l4⟩ := userHdr_layout_setter .shoff (Or.inr (Or.inr (Or.inr rfl))) o.cls o.enc _ 0 l3
+  obtain ⟨u5, l5⟩ := userHdr_layout_setter .shoff (Or.inr (Or.inr (Or.inr rfl))) o.cls o.enc _ x l4
+  have len : ∀ (f : HField) h' v', ehdrSize o.cls ≤ h'.length → (f.set o.cls o.enc h' v').length = h'.length :=
+    fun f h' v' hl' => hdr_set_length f o.cls o.enc h' v' hl'
+  refine ⟨?_, ?_, ?_, ?_⟩
+  · have e1 := len .phnum hd (o.segs.length % 65536) hl
+    have e2 := len .phoff _ v l1
+    have e3 := len .shnum _ (o.secs.length % 65536) l2
+    have e4 := len .shoff _ 0 l3
+    have e5 := len .shoff _ x l4
+    exact e5.trans (e4.trans (e3.trans (e2.trans e1)))
+  · exact u5.trans (u4.trans (u3.trans (u2.trans u1)))
+  · -- e_shnum: set by the third setter, untouched by the two later ones
+    have g := (hdr_set_get o.cls o.enc (HField.phoff.set o.cls o.enc (HField.phnum.set o.cls o.enc hd (o.segs.length % 65536)) v)
+      (o.secs.length % 65536) l2).2.2.2.2.2.2.2.2.1
+    have f4 := (hdr_set_frame .shoff o.cls o.enc _ 0 l3).2.2.2.2.2.2.2.2.2.2.2.1 (by decide)
+    have f5 := (hdr_set_frame .shoff o.cls o.enc _ x l4).2.2.2.2.2.2.2.2.2.2.2.1 (by decide)
+    exact (congrArg BitVec.toNat (f5.trans f4)).trans (g.trans (Nat.mod_mod _ _))
+  · have g := (hdr_set_get o.cls o.enc hd (o.segs.length % 65536) hl).2.2.2.2.2.2.2.1
+    have f2 := (hdr_set_frame .phoff o.cls o.enc _ v l1).2.2.2.2.2.2.2.2.2.1 (by decide)
+    have f3 := (hdr_set_frame .shnum o.cls o.enc _ (o.secs.length % 65536) l2).2.2.2.2.2.2.2.2.2.1 (by decide)
+    have f4 := (hdr_set_frame .shoff o.cls o.enc _ 0 l3).2.2.2.2.2.2.2.2.2.1 (by decide)
+    have f5 := (hdr_set_frame .shoff o.cls o.enc _ x l4).2.2.2.2.2.2.2.2.2.1 (by decide)
+    exact (congrArg BitVec.toNat (f5.trans (f4.trans (f3.trans f2)))).trans (g.trans (Nat.mod_mod _ _))
+
+/-- a section header record found at `base` of an image decodes, per the specification, to the
+    section's fields -/
+theorem shdr_get_at {c : Cls} {enc : Enc} {img : Bytes} {base : Nat} {b : SecBuf}
+    (hs : slice img base (shdrSize c) = encodeShdr c enc b) (hf : FieldsFit c b) :
+    Spec.get (Spec.shdrL c) enc img base "sh_name" = b.nameOff.toNat ∧
+    Spec.get (Spec.shdrL c) enc img base "sh_type" = b.stype.toNat ∧
+    Spec.get (Spec.shdrL c) enc img base "sh_flags" = b.flags.toNat ∧
+    Spec.get (Spec.shdrL c) enc img base "sh_addr" = b.addr.toNat ∧
+    Spec.get (Spec.shdrL c) enc img base "sh_offset" = b.offset.toNat ∧
+    Spec.get (Spec.shdrL c) enc img base "sh_size" = b.size.toNat ∧
+    Spec.get (Spec.shdrL c) enc img base "sh_link" = b.link.toNat ∧
+    Spec.get (Spec.shdrL c) enc img base "sh_info" = b.info.toNat ∧
+    Spec.get (Spec.shdrL c) enc img base "sh_addralign" = b.addrAlign.toNat ∧
+    Spec.get (Spec.shdrL c) enc img base "sh_entsize" = b.entSize.toNat := by
+  obtain ⟨h0, h1, h2, h3, h4, h5, h6, h7, h8, h9⟩ := encodeShdr_eq_spec c enc b hf
+  have bd : ∀ name ∈ ["sh_name", "sh_type", "sh_flags", "sh_addr", "sh_offset", "sh_size", "sh_link", "sh_info", "sh_addralign", "sh_entsize"],
+      (Spec.field (Spec.shdrL c) name).1 + (Spec.field (Spec.shdrL c) name).2 ≤ shdrSize c := by
+    cases c <;> decide
+  exact ⟨(get_at_base hs (bd _ (by decide))).trans h0,
+    (get_at_base hs (bd _ (by decide))).trans h1,
+    (get_at_base hs (bd _ (by decide))).trans h2,
+    (get_at_base hs (bd _ (by decide))).trans h3,
+    (get_at_base hs (bd _ (by decide))).trans h4,
+    (get_at_base hs (bd _ (by decide))).trans h5,
+    (get_at_base hs (bd _ (by decide))).trans h6,
+    (get_at_base hs (bd _ (by decide))).trans h7,
+    (get_at_base hs (bd _ (by decide))).trans h8,
+    (get_at_base hs (bd _ (by decide))).trans h9⟩
+
+theorem phdr_get_at {c : Cls} {enc : Enc} {img : Bytes} {base : Nat} {g : Seg}
+    (hs : slice img base (phdrSize c) = encodePhdr c enc g) (hf : SegFit c g) :
+    Spec.get (Spec.phdrL c) enc img base "p_type" = g.stype.toNat ∧
+    Spec.get (Spec.phdrL c) enc img base "p_flags" = g.flags.toNat ∧
+    Spec.get (Spec.phdrL c) enc img base "p_offset" = g.offset.toNat ∧
+    Spec.get (Spec.phdrL c) enc img base "p_vaddr" = g.vaddr.toNat ∧
+    Spec.get (Spec.phdrL c) enc img base "p_paddr" = g.paddr.toNat ∧
+    Spec.get (Spec.phdrL c) enc img base "p_filesz" = g.filesz.toNat ∧
+    Spec.get (Spec.phdrL c) enc img base "p_memsz" = g.memsz.toNat ∧
+    Spec.get (Spec.phdrL c) enc img base "p_align" = g.align.toNat := by
+  obtain ⟨h0, h1, h2, h3, h4, h5, h6, h7⟩ := encodePhdr_eq_spec c enc g hf
+  have bd : ∀ name ∈ ["p_type", "p_flags", "p_offset", "p_vaddr", "p_paddr", "p_filesz", "p_memsz", "p_align"],
+      (Spec.field (Spec.phdrL c) name).1 + (Spec.field (Spec.phdrL c) name).2 ≤ phdrSize c := by
+    cases c <;> decide
+  exact ⟨(get_at_base hs (bd _ (by decide))).trans h0,
+    (get_at_base hs (bd _ (by decide))).trans h1,
+    (get_at_base hs (bd _ (by decide))).trans h2,
+    (get_at_base hs (bd _ (by decide))).trans h3,
+    (get_at_base hs (bd _ (by decide))).trans h4,
+    (get_at_base hs (bd _ (by decide))).trans h5,
+    (get_at_base hs (bd _ (by decide))).trans h6,
+    (get_at_base hs (bd _ (by decide))).trans h7⟩
+
+/-- **save_decode_fields** : the saved bytes, read with the *specification's* decoder, give back what
+    was put into the object.  For every section, in the same order (record `index` of the table at
+    `e_shoff`): the same name offset, type, flags, size, link, info, alignment, entry size; the same
+    address if one had been set; and, for a file-occupying non-empty resident section, its data at
+    the decoded `sh_offset`.  For every segment (record `index` of the table at `e_phoff`): the same
+    type, flags, virtual and physical address, an alignment of at least the requested one and (ELF64) a
+    memory size of at least the given one.
+    Hypotheses: the save succeeded into a good stream; no address translation; `LayoutOk` (C04's
+    disjointness, as hypothesis); the object's section fields fit the class (`FieldsFit`, guaranteed by
+    the truncating setters) and the saved segments' do (`SegFit`; trivial in ELF64). -/
+theorem save_decode_fields {o : Obj} {os : OStream} {r : SaveRes} (hs : save o os = .ok r) (hok : r.ok = true)
+    (hg : os.Good) (htr : o.trans = []) (hidx : SegIdxOk o.segs) {h : Bytes} (hh : r.obj.hdr = some h)
+    (hl : LayoutOk r.obj.cls r.obj.enc h r.obj.secs r.obj.segs)
+    (hfit : ∀ a ∈ o.secs, FieldsFit o.cls a) (hsegfit : ∀ g ∈ r.obj.segs, SegFit o.cls g) :
+    (∀ (i : Nat) a, o.secs[i]? = some a →
+      let img := r.os.content
+      let base := (Hdr.e_shoff o.cls o.enc h).toNat + (Hdr.e_shentsize o.cls o.enc h).toNat * a.index
+      let l := Spec.shdrL o.cls
+      Spec.get l o.enc img base "sh_name" = a.nameOff.toNat ∧ Spec.get l o.enc img base "sh_type" = a.stype.toNat ∧
+      Spec.get l o.enc img base "sh_flags" = a.flags.toNat ∧ Spec.get l o.enc img base "sh_size" = a.size.toNat ∧
+      Spec.get l o.enc img base "sh_link" = a.link.toNat ∧ Spec.get l o.enc img base "sh_info" = a.info.toNat ∧
+      Spec.get l o.enc img base "sh_addralign" = a.addrAlign.toNat ∧
+      Spec.get l o.enc img base "sh_entsize" = a.entSize.toNat ∧
+      (a.addrSet = true → Spec.get l o.enc img base "sh_addr" = a.addr.toNat) ∧
+      (a.stype ≠ BitVec.ofNat 32 SHT_NOBITS → a.stype ≠ BitVec.ofNat 32 SHT_NULL → a.size ≠ 0 →
+        a.data.isSome = true →
+        slice img (Spec.get l o.enc img base "sh_offset") a.view.length = a.view)) ∧
+    (∀ (j : Nat) g, o.segs[j]? = some g →
+      let img := r.os.content
+      let base := (Hdr.e_phoff o.cls o.enc h).toNat + (Hdr.e_phentsize o.cls o.enc h).toNat * g.index
+      let l := Spec.phdrL o.cls
+      Spec.get l o.enc img base "p_type" = g.stype.toNat ∧ Spec.get l o.enc img base "p_flags" = g.flags.toNat ∧
+      Spec.get l o.enc img base "p_vaddr" = g.vaddr.toNat ∧ Spec.get l o.enc img base "p_paddr" = g.paddr.toNat ∧
+      g.align.toNat ≤ Spec.get l o.enc img base "p_align" ∧
+      (o.cls = .c64 → g.memsz.toNat ≤ Spec.get l o.enc img base "p_memsz")) := by
+  obtain ⟨⟨l0, l1, f0, f1, f2⟩, fs, ec, ee, _⟩ := save_frames hs hok hidx
+  rw [ec, ee] at hl
+  constructor
+  · intro i a ha
+    have hi0 : i < l0.length := by
+      rw [f0.1]
+      rcases Nat.lt_or_ge i o.secs.length with hlt | hge
+      · exact hlt
+      · rw [List.getElem?_eq_none hge] at ha; cases ha
+    have hi : i < l1.length := by rw [f1.1]; exact hi0
+    have hi2 : i < r.obj.secs.length := by rw [f2.1]; exact hi
+    have ra := f0.2 i a l0[i] ha (List.getElem?_eq_getElem hi0)
+    have pm := f1.2 i l0[i] l1[i] (List.getElem?_eq_getElem hi0) (List.getElem?_eq_getElem hi)
+    have rb := f2.2 i l1[i] r.obj.secs[i] (List.getElem?_eq_getElem hi) (List.getElem?_eq_getElem hi2)
+    have fit : FieldsFit o.cls r.obj.secs[i] :=
+      resFrame_fit rb (placed_fit pm (resFrame_fit ra (hfit a (List.mem_of_getElem? ha))))
+    have hmem : r.obj.secs[i] ∈ r.obj.secs := List.getElem_mem hi2
+    have hl' : LayoutOk r.obj.cls r.obj.enc h r.obj.secs r.obj.segs := by rw [ec, ee]; exact hl
+    obtain ⟨hrec, dat⟩ := save_decodes_section hs hok hg htr hh hl' hmem
+    rw [ec, ee] at hrec
+    have e0 := ra.rest; have e1 := pm.frame.rest; have e2 := rb.rest
+    rw [e0] at e1
+    have eidx : (r.obj.secs[i]).index = a.index := by rw [e2, e1]
+    rw [eidx] at hrec
+    obtain ⟨g0, g1, g2, g3, g4, g5, g6, g7, g8, g9⟩ := shdr_get_at hrec fit
+    simp only
+    refine ⟨g0.trans ?_, g1.trans ?_, g2.trans ?_, g5.trans ?_, g6.trans ?_, g7.trans ?_, g8.trans ?_, g9.trans ?_,
+      fun hset => g3.trans ?_, fun n1 n2 n3 n4 => ?_⟩
+    · rw [e2, e1]
+    · rw [e2, e1]
+    · rw [e2, e1]
+    · rw [e2, e1]
+    · rw [e2, e1]
+    · rw [e2, e1]
+    · rw [e2, e1]
+    · rw [e2, e1]
+    · have h0set : (l0[i]).addrSet = true := by rw [e0]; exact hset
+      have h0addr : (l0[i]).addr = a.addr := by rw [e0]
+      have := (pm.frame.addrKept h0set).1
+      rw [e2]; exact congrArg BitVec.toNat (this.trans h0addr)
+    · -- data
+      have hst : (r.obj.secs[i]).stype = a.stype := by rw [e2, e1]
+      have hsz : (r.obj.secs[i]).size = a.size := by rw [e2, e1]
+      have d0 := (ra.dataSome n4).1
+      have d1 : (l1[i]).data = (l0[i]).data := by rw [pm.frame.rest]
+      have d2 := (rb.dataSome (by rw [d1, d0]; exact n4)).1
+      have hda : (r.obj.secs[i]).data = a.data := d2.trans (d1.trans d0)
+      cases hd : a.data with
+      | none => rw [hd] at n4; cases n4
+      | some d =>
+        have := dat (by rw [hst]; exact n1) (by rw [hst]; exact n2) (by rw [hsz]; exact n3) d (by rw [hda]; exact hd)
+        rw [g4]
+        simpa only [SecBuf.view, hd, Option.getD_some, hsz] using this
+  · intro j g hgj
+    have hj : j < r.obj.segs.length := by
+      rw [fs.1]
+      rcases Nat.lt_or_ge j o.segs.length with hlt | hge
+      · exact hlt
+      · rw [List.getElem?_eq_none hge] at hgj; cases hgj
+    have sg := fs.2 j g r.obj.segs[j] hgj (List.getElem?_eq_getElem hj)
+    have hmem : r.obj.segs[j] ∈ r.obj.segs := List.getElem_mem hj
+    have hl' : LayoutOk r.obj.cls r.obj.enc h r.obj.secs r.obj.segs := by rw [ec, ee]; exact hl
+    have hrec := save_decodes_segment hs hok hg htr hh hl' hmem
+    rw [ec, ee] at hrec
+    have er := sg.frame.rest
+    have eidx : (r.obj.segs[j]).index = g.index := sg.frame.index
+    rw [eidx] at hrec
+    obtain ⟨g0, g1, g2, g3, g4, g5, g6, g7⟩ := phdr_get_at hrec (hsegfit _ hmem)
+    simp only
+    refine ⟨g0.trans ?_, g1.trans ?_, g3.trans ?_, g4.trans ?_, ?_, fun hc => ?_⟩
+    · rw [er]
+    · rw [er]
+    · rw [er]
+    · rw [er]
+    · rw [g7]; exact sg.frame.alignGrows
+    · rw [g6]; exact sg.frame.memGrows hc
+
+/-- every ELF header field of the saved file reads as it reads in the saved object's header -/
+theorem save_image_header {o : Obj} {os : OStream} {r : SaveRes} (hs : save o os = .ok r) (hok : r.ok = true)
+    (hg : os.Good) (htr : o.trans = []) {h : Bytes} (hh : r.obj.hdr = some h) (hlh : ehdrSize o.cls ≤ h.length)
+    (hl : LayoutOk r.obj.cls r.obj.enc h r.obj.secs r.obj.segs) (name : String)
+    (hv : ValidName (Spec.ehdrL o.cls) name) :
+    Spec.get (Spec.ehdrL o.cls) o.enc r.os.content 0 name = Spec.get (Spec.ehdrL o.cls) o.enc h 0 name := by
+  have sl := save_decodes_header hs hok hg htr hh hl
+  obtain ⟨e, he, _, hf⟩ := field_of_valid hv
+  have := (ehdr_table_ok o.cls).2 e he
+  rw [(sizes_eq o.cls).1] at hlh
+  exact get_at_base sl (by rw [hf]; omega)
+
+/-- **save_decode_header** : the first bytes of the file decode, per the specification, to the
+    header attributes of the object (type, machine, version, entry, flags, the three record sizes,
+    the name-table index, the identification bytes), with `e_shnum`/`e_phnum` the numbers of sections
+    and segments. -/
+theorem save_decode_header {o : Obj} {os : OStream} {r : SaveRes} (hs : save o os = .ok r) (hok : r.ok = true)
+    (hg : os.Good) (htr : o.trans = []) {h hd : Bytes} (hh : r.obj.hdr = some h) (hhd : o.hdr = some hd)
+    (hlen : ehdrSize o.cls ≤ hd.length)
+    (hl : LayoutOk r.obj.cls r.obj.enc h r.obj.secs r.obj.segs) :
+    let img := r.os.content; let l := Spec.ehdrL o.cls
+    Spec.get l o.enc img 0 "e_type" = (Hdr.e_type o.cls o.enc hd).toNat ∧
+    Spec.get l o.enc img 0 "e_machine" = (Hdr.e_machine o.cls o.enc hd).toNat ∧
+    Spec.get l o.enc img 0 "e_version" = (Hdr.e_version o.cls o.enc hd).toNat ∧
+    Spec.get l o.enc img 0 "e_entry" = (Hdr.e_entry o.cls o.enc hd).toNat ∧
+    Spec.get l o.enc img 0 "e_flags" = (Hdr.e_flags o.cls o.enc hd).toNat ∧
+    Spec.get l o.enc img 0 "e_ehsize" = (Hdr.e_ehsize o.cls o.enc hd).toNat ∧
+    Spec.get l o.enc img 0 "e_phentsize" = (Hdr.e_phentsize o.cls o.enc hd).toNat ∧
+    Spec.get l o.enc img 0 "e_shentsize" = (Hdr.e_shentsize o.cls o.enc hd).toNat ∧
+    Spec.get l o.enc img 0 "e_shstrndx" = (Hdr.e_shstrndx o.cls o.enc hd).toNat ∧
+    Spec.get l o.enc img 0 "e_ident" = Spec.get l o.enc hd 0 "e_ident" ∧
+    Spec.get l o.enc img 0 "e_shnum" = o.secs.length % 65536 ∧
+    Spec.get l o.enc img 0 "e_phnum" = o.segs.length % 65536 := by
+  obtain ⟨hd', h', e1, e2, key⟩ := save_header_fields hs hok
+  rw [hhd] at e1; cases e1
+  rw [hh] at e2; cases e2
+  obtain ⟨elen, eu, esn, epn⟩ := key hlen
+  have sl := save_decodes_header hs hok hg htr hh hl
+  have hlh : ehdrSize o.cls ≤ h.length := by rw [elen]; exact hlen
+  have at0 : ∀ name, ValidName (Spec.ehdrL o.cls) name →
+      Spec.get (Spec.ehdrL o.cls) o.enc r.os.content 0 name = Spec.get (Spec.ehdrL o.cls) o.enc h 0 name := by
+    intro name hv
+    obtain ⟨e, he, _, hf⟩ := field_of_valid hv
+    have := (ehdr_table_ok o.cls).2 e he
+    rw [(sizes_eq o.cls).1] at hlh
+    exact get_at_base sl (by rw [hf]; omega)
+  obtain ⟨a0, a1, a2, a3, a4, a5, a6, a7, a8, a9, a10, a11, a12⟩ := C02.ehdr_fields_eq_spec o.cls o.enc h hlh
+  unfold userHdr at eu
+  simp only [Prod.mk.injEq] at eu
+  obtain ⟨u0, u1, u2, u3, u4, u5, u6, u7, u8, u9⟩ := eu
+  have vn : ∀ name ∈ ["e_type", "e_machine", "e_version", "e_entry", "e_flags", "e_ehsize", "e_phentsize",
+      "e_shentsize", "e_shstrndx", "e_ident", "e_shnum", "e_phnum"], ValidName (Spec.ehdrL o.cls) name := by
+    cases o.cls <;> decide
+  simp only
+  refine ⟨?_, ?_, ?_, ?_, ?_, ?_, ?_, ?_, ?_, ?_, ?_, ?_⟩
+  · rw [at0 _ (vn _ (by decide)), ← a0, u0]
+  · rw [at0 _ (vn _ (by decide)), ← a1, u1]
+  · rw [at0 _ (vn _ (by decide)), ← a2, u2]
+  · rw [at0 _ (vn _ (by decide)), ← a3, u3]
+  · rw [at0 _ (vn _ (by decide)), ← a6, u4]
+  · rw [at0 _ (vn _ (by decide)), ← a7, u5]
+  · rw [at0 _ (vn _ (by decide)), ← a8, u6]
+  · rw [at0 _ (vn _ (by decide)), ← a10, u7]
+  · rw [at0 _ (vn _ (by decide)), ← a12, u8]
+  · rw [at0 _ (vn _ (by decide)), u9]
+  · rw [at0 _ (vn _ (by decide)), ← a11, esn]
+  · rw [at0 _ (vn _ (by decide)), ← a9, epn]
+
+/-! ### 6. `LayoutOk` from zone facts (the interface to C04) -/
+
+/-- the section's data are written by `save` -/
+def Written (b : SecBuf) : Prop :=
+  b.stype ≠ BitVec.ofNat 32 SHT_NOBITS ∧ b.stype ≠ BitVec.ofNat 32 SHT_NULL ∧ b.size ≠ 0 ∧ b.data.isSome = true
+
+theorem secWrites_mem {c : Cls} {enc : Enc} {shoff : BitVec 64} {se : BitVec 16} {b : SecBuf} {w : Nat × Bytes}
+    (hw : w ∈ secWrites c enc shoff se b) :
+    (w.1 = shoff.toNat + se.toNat * b.index ∧ w.2.length = shdrSize c) ∨
+    (Written b ∧ w.1 = b.offset.toNat ∧ w.2.length ≤ b.size.toNat) := by
+  unfold secWrites at hw
+  rcases List.mem_cons.1 hw with h | h
+  · left; rw [h]; exact ⟨rfl, encodeShdr_length c enc b⟩
+  · right
+    split at h
+    · rename_i hc
+      simp only [List.mem_singleton] at h
+      rw [h]
+      simp only [Bool.and_eq_true, bne_iff_ne, ne_eq] at hc
+      refine ⟨⟨hc.1.1.1, hc.1.1.2, hc.1.2, hc.2⟩, rfl, ?_⟩
+      simp only [List.length_take]; omega
+    · cases h
+
+theorem written_iff (b : SecBuf) : secWritten b = true ↔ Written b := by
+  unfold secWritten Written
+  simp only [Bool.and_eq_true, bne_iff_ne, ne_eq]
+  constructor
+  · rintro ⟨⟨⟨a, b'⟩, c'⟩, d⟩; exact ⟨a, b', c', d⟩
+  · rintro ⟨a, b', c', d⟩; exact ⟨⟨⟨a, b'⟩, c'⟩, d⟩
+
+theorem mul_index_disj {se i j n : Nat} (hn : n ≤ se) (hne : i ≠ j) (base : Nat) :
+    base + se * i + n ≤ base + se * j ∨ base + se * j + n ≤ base + se * i := by
+  rcases Nat.lt_or_gt_of_ne hne with hlt | hgt
+  · left
+    have : se * i + se ≤ se * j := by rw [← Nat.mul_succ]; exact Nat.mul_le_mul_left _ hlt
+    omega
+  · right
+    have : se * j + se ≤ se * i := by rw [← Nat.mul_succ]; exact Nat.mul_le_mul_left _ hgt
+    omega
+
+/-- the writes of the sections do not touch each other -/
+theorem secWrites_pairwise (c : Cls) (enc : Enc) (SO : BitVec 64) (SE : BitVec 16) (lo : Nat) (secs : List SecBuf)
+    (hse : shdrSize c ≤ SE.toNat)
+    (hsecIdx : secs.Pairwise (fun a b => a.index ≠ b.index))
+    (hdata : ∀ b ∈ secs, Written b → lo ≤ b.offset.toNat ∧ b.offset.toNat + b.size.toNat ≤ SO.toNat)
+    (hdisj : secs.Pairwise (fun a b => Written a → Written b →
+      a.offset.toNat + a.size.toNat ≤ b.offset.toNat ∨ b.offset.toNat + b.size.toNat ≤ a.offset.toNat)) :
+    (secs.flatMap (secWrites c enc SO SE)).Pairwise WDisj := by
+  induction secs with
+  | nil => exact List.Pairwise.nil
+  | cons s rest ih =>
+    simp only [List.flatMap_cons]
+    rw [List.pairwise_append]
+    obtain ⟨hi1, hi2⟩ := List.pairwise_cons.1 hsecIdx
+    obtain ⟨hd1, hd2⟩ := List.pairwise_cons.1 hdisj
+    refine ⟨?_, ih hi2 (fun b hb => hdata b (List.mem_cons_of_mem _ hb)) hd2, ?_⟩
+    · -- the record and the data of one section
+      unfold secWrites
+      split
+      · rename_i hc
+        have hw : Written s := (written_iff s).1 hc
+        have := (hdata s List.mem_cons_self hw).2
+        refine List.Pairwise.cons (fun w hw' => ?_) (List.Pairwise.cons (fun _ h => by cases h) List.Pairwise.nil)
+        simp only [List.mem_singleton] at hw'
+        subst hw'
+        unfold WDisj
+        right
+        simp only [List.length_take]
+        omega
+      · exact List.Pairwise.cons (fun _ h => by cases h) List.Pairwise.nil
+    · -- one section against another
+      intro a ha b hb
+      obtain ⟨s', hs', hbs⟩ := List.mem_flatMap.1 hb
+      have hne : s.index ≠ s'.index := hi1 s' hs'
+      have hdd := hd1 s' hs'
+      unfold WDisj
+      rcases secWrites_mem ha with ⟨ea, la⟩ | ⟨wa, ea, la⟩ <;>
+      rcases secWrites_mem hbs with ⟨eb, lb⟩ | ⟨wb, eb, lb⟩
+      · rw [ea, eb, la, lb]
+        exact mul_index_disj hse hne _
+      · right; rw [ea, eb]
+        have := (hdata s' (List.mem_cons_of_mem _ hs') wb).2
+        omega
+      · left; rw [ea, eb]
+        have := (hdata s List.mem_cons_self wa).2
+        omega
+      · rw [ea, eb]
+        rcases hdd wa wb with h' | h'
+        · left; omega
+        · right; omega
+
+/-- **`LayoutOk` from zone facts** — the hypotheses are literally the conclusions of C04's
+    `layout_disjoint` (data of file-occupying sections pairwise disjoint and inside
+    `[eh + pht, shoff)`) plus table bookkeeping that holds for every created or loaded object (the
+    header fits in `eh` bytes, program header records inside `[eh, eh + pht)`, record sizes as the
+    class prescribes, distinct indices) and the size assumption `file < 2^63`. -/
+theorem layoutOk_of_zones (c : Cls) (enc : Enc) (h : Bytes) (secs : List SecBuf) (segs : List Seg) (eh pht : Nat)
+    (hlen : h.length ≤ eh)
+    (hse : shdrSize c ≤ (Hdr.e_shentsize c enc h).toNat) (hpe : phdrSize c ≤ (Hdr.e_phentsize c enc h).toNat)
+    (hsegIn : ∀ g ∈ segs, eh ≤ (Hdr.e_phoff c enc h).toNat + (Hdr.e_phentsize c enc h).toNat * g.index ∧
+      (Hdr.e_phoff c enc h).toNat + (Hdr.e_phentsize c enc h).toNat * g.index + phdrSize c ≤ eh + pht)
+    (hsegIdx : segs.Pairwise (fun a b => a.index ≠ b.index))
+    (hsecIdx : secs.Pairwise (fun a b => a.index ≠ b.index))
+    (hdata : ∀ b ∈ secs, Written b → eh + pht ≤ b.offset.toNat ∧
+      b.offset.toNat + b.size.toNat ≤ (Hdr.e_shoff c enc h).toNat)
+    (hdisj : secs.Pairwise (fun a b => Written a → Written b →
+      a.offset.toNat + a.size.toNat ≤ b.offset.toNat ∨ b.offset.toNat + b.size.toNat ≤ a.offset.toNat))
+    (hsmall : ∀ b ∈ secs, (Hdr.e_shoff c enc h).toNat + (Hdr.e_shentsize c enc h).toNat * b.index + shdrSize c <
+      9223372036854775808)
+    (hphs : (Hdr.e_phoff c enc h).toNat < 9223372036854775808)
+    (hshs : (Hdr.e_shoff c enc h).toNat < 9223372036854775808)
+    (hzone : eh + pht ≤ (Hdr.e_shoff c enc h).toNat) :
+    LayoutOk c enc h secs segs := by
+  refine ⟨?_, hshs, hphs, fun b hb hw => ?_⟩
+  · unfold objWrites
+    generalize hso : (Hdr.e_shoff c enc h) = SO at *
+    generalize hsen : (Hdr.e_shentsize c enc h) = SE at *
+    generalize hpo : (Hdr.e_phoff c enc h) = PO at *
+    generalize hpen : (Hdr.e_phentsize c enc h) = PE at *
+    rw [List.pairwise_cons]
+    constructor
+    · -- the ELF header against everything else
+      intro w hw
+      unfold WDisj
+      simp only
+      rcases List.mem_append.1 hw with hw | hw
+      · obtain ⟨b, hb, hwb⟩ := List.mem_flatMap.1 hw
+        rcases secWrites_mem hwb with ⟨e, _⟩ | ⟨wr, e, _⟩
+        · left; rw [e]; have := hzone; omega
+        · left; rw [e]; have := (hdata b hb wr).1; omega
+      · obtain ⟨g, hg, rfl⟩ := List.mem_map.1 hw
+        left; simp only [segWrite]; have := (hsegIn g hg).1; omega
+    · rw [List.pairwise_append]
+      refine ⟨?_, ?_, ?_⟩
+      · exact secWrites_pairwise c enc SO SE (eh + pht) secs hse hsecIdx hdata hdisj
+      · -- program header records among themselves
+        rw [List.pairwise_map]
+        refine hsegIdx.imp ?_
+        intro a b hne
+        unfold WDisj segWrite
+        simp only [encodePhdr_length]
+        exact mul_index_disj hpe hne _
+      · -- sections against program header records
+        intro a ha b hb
+        obtain ⟨s, hs, has⟩ := List.mem_flatMap.1 ha
+        obtain ⟨g, hg, rfl⟩ := List.mem_map.1 hb
+        unfold WDisj
+        simp only [segWrite, encodePhdr_length]
+        have hgi := hsegIn g hg
+        rcases secWrites_mem has with ⟨ea, la⟩ | ⟨wa, ea, la⟩
+        · right; rw [ea]; omega
+        · right; rw [ea]; have := (hdata s hs wa).1; omega
+  · have := hsmall b hb
+    have := (hdata b hb ((written_iff b).1 hw)).2
+    omega
+
 end ElfioVerif.C03
